@@ -4,20 +4,29 @@ import QF.Props.C13Render
 /-!
 # C12 (reader mirror vs. specification on rendered documents)
 
-`Full.readAll` (the mirror of internal/fastcsv: refilling buffer, in-place compaction of quoted
-fields, CR trimming, blank-last-line rule) returns, on every document rendered from a table with an
-admissible quoting choice and for EVERY read schedule, exactly the table — i.e. what the RFC 4180
-specification `rfcParse` says.
+`Full.readAll` (the mirror of the REPAIRED internal/fastcsv: refilling buffer, in-place compaction of
+quoted fields, CR skipped only after a closing quote, empty last field after a trailing delimiter, CR
+trimming, blank-last-line rule) returns, on every document rendered from a table with an admissible
+quoting choice and for EVERY read schedule, exactly the table — i.e. what the RFC 4180 specification
+`rfcParse` says. Quoted fields may contain line breaks, CR LF included (`RowOk'`); the last row may come
+without its line break and may end with a delimiter (`read_render_no_final_newline`,
+`read_render_trailing_delim`).
 
 Structure of the proof
 * §0  list helpers
 * §1  unquoted field followed by delimiter / LF on a loaded buffer (`unq_field`)
-* §2  quoted field: lock-step with a functional scanner (`quoted_eq_qscan`), content (`qscan_content`),
-      closing quote (`qscan_close`), hence `quoted_field`
-* §3  one field through `fnext` (`fnext_field`), one row through `rowLoop` / `readerNext`
-* §4  the whole document through `readAll` on the loaded buffer (`readAll_loaded`)
+* §2  quoted field: lock-step with a functional scanner (`quoted_eq_qscan`), content (`qscan_content`, any
+      content), closing quote (`qscan_close*`), hence `quoted_field`, `quoted_field_eof`,
+      `quoted_field_delim_eof`, `quoted_field_end`
+* §3  one field through `fnext` (`fnext_field_delim`, `fnext_field_last`, `fnext_field_end`), one row through
+      `rowLoop` / `readerNext` (`rowLoop_row`, `readerNext_row`; without line break: `rowLoop_fields`,
+      `readerNext_fields`)
+* §4  the whole document through `readAll` on the loaded buffer (`readAll_prefix`, `readAll_loaded`,
+      `readAll_loaded_nfn`)
 * §5  totality of the reader under an arbitrary schedule (`readAll_total`)
-* §6  main theorems `read_render`, `read_eq_spec`
+* §6  main theorems `read_render'`, `read_eq_spec'`, `read_render_no_final_newline`,
+      `read_render_trailing_delim`, … and, as corollaries, the theorems stated before the repair
+      (`read_render`, `read_eq_spec`, … with `RowOk`, which forbids CR in every field)
 -/
 namespace QF.Props.C12Read
 open Full
@@ -113,13 +122,15 @@ bytes, `acc` = field so far, `qc` = consecutive quotes, `p` = the byte the next 
 (= tape[writeCursor]). Returns field, hitEOL, err, number of unread bytes left. -/
 def qscan (delim : Byte) : List Byte → List Byte → Nat → Byte → List Byte × Bool × Option RErr × Nat
   | [], acc, _, _ => (acc, true, some .eof, 0)
-  | [_], acc, _, _ => (acc, true, some .eof, 1)          -- the last byte is never examined
+  | [b], acc, qc, _ =>          -- the last byte is examined only for "delimiter after the closing quote"
+    if qc % 2 != 0 && b == delim then (acc, false, none, 0) else (acc, true, some .eof, 1)
   | b :: b' :: rest, acc, qc, p =>
     if b == delim then
       (if qc % 2 != 0 then (acc, false, none, (b' :: rest).length) else qscan delim (b' :: rest) (acc ++ [p]) 0 b')
     else if b == LF then
       (if qc % 2 != 0 then (acc, true, none, (b' :: rest).length) else qscan delim (b' :: rest) (acc ++ [p]) 0 b')
-    else if b == CR then qscan delim (b' :: rest) acc qc p
+    else if b == CR then   -- skipped after a closing quote (CRLF row end), content inside the quotes
+      (if qc % 2 != 0 then qscan delim (b' :: rest) acc qc p else qscan delim (b' :: rest) (acc ++ [p]) 0 b')
     else if b == QUOTE then
       (if (qc + 1) % 2 == 1 then qscan delim (b' :: rest) acc (qc + 1) p else qscan delim (b' :: rest) (acc ++ [p]) 0 b')
     else qscan delim (b' :: rest) (acc ++ [p]) 0 b'
@@ -151,13 +162,38 @@ theorem quoted_eq_qscan (delim : Byte) (fuel : Nat) : ∀ (s : St) (start w qc :
       | nil =>
         have : s.cursor = s.data.length := by
           have := congrArg List.length hd; simp at this; omega
+        have hc' : ¬ (qc % 2 != 0 && decide (s.cursor < s.data.length) && s.data[s.cursor]? == some delim) = true := by
+          intro h
+          simp only [Bool.and_eq_true, decide_eq_true_eq] at h
+          omega
+        simp only [hc', Bool.false_eq_true, ↓reduceIte]
         exact ⟨s, by simp [qscan, St.slice, hacc], hf, by simp [qscan, this], rfl, Nat.le_refl _, rfl⟩
       | cons x xs =>
         cases xs with
         | nil =>
-          have : s.cursor + 1 = s.data.length := by
+          have hl1 : s.cursor + 1 = s.data.length := by
             have := congrArg List.length hd; simp at this; omega
-          exact ⟨s, by simp [qscan, St.slice, hacc], hf, by simp [qscan, this], rfl, Nat.le_refl _, rfl⟩
+          have hlt : s.cursor < s.data.length := by omega
+          have hx : s.data[s.cursor]? = some x := by
+            have := congrArg (·[0]?) hd; simpa using this
+          by_cases hc : (qc % 2 != 0 && x == delim) = true
+          · have hc' : (qc % 2 != 0 && decide (s.cursor < s.data.length) && s.data[s.cursor]? == some delim) = true := by
+              simp only [Bool.and_eq_true, decide_eq_true_eq] at hc ⊢
+              exact ⟨⟨hc.1, hlt⟩, by rw [hx]; simpa using hc.2⟩
+            simp only [hc', ↓reduceIte]
+            refine ⟨{ s with cursor := s.cursor + 1 }, by simp only [qscan, hc, ↓reduceIte, St.slice, hacc], hf, ?_, rfl,
+              by show s.cursor ≤ s.cursor + 1; omega, rfl⟩
+            simp only [qscan, hc, ↓reduceIte]
+            show s.cursor + 1 + 0 = s.data.length
+            omega
+          · have hc' : ¬ (qc % 2 != 0 && decide (s.cursor < s.data.length) && s.data[s.cursor]? == some delim) = true := by
+              intro h
+              simp only [Bool.and_eq_true, decide_eq_true_eq] at hc h
+              exact hc ⟨h.1.1, by have := h.2; rw [hx] at this; simpa using this⟩
+            simp only [hc', Bool.false_eq_true, ↓reduceIte]
+            refine ⟨s, by simp only [qscan, hc, Bool.false_eq_true, ↓reduceIte, St.slice, hacc], hf, ?_, rfl, Nat.le_refl _, rfl⟩
+            simp only [qscan, hc, Bool.false_eq_true, ↓reduceIte]
+            omega
         | cons y ys => rw [hd] at hlen; simp at hlen
     · simp only [hE, ↓reduceIte]
       have h2 : s.cursor + 1 < s.data.length := by omega
@@ -252,7 +288,10 @@ theorem quoted_eq_qscan (delim : Byte) (fuel : Nat) : ∀ (s : St) (start w qc :
           · simp only [c2, Bool.false_eq_true, ↓reduceIte]; exact hkeep
         · simp only [c3, Bool.false_eq_true, ↓reduceIte]
           by_cases c4 : (ch == CR) = true
-          · simp only [c4, ↓reduceIte]; exact hskip qc
+          · simp only [c4, ↓reduceIte]
+            by_cases c2 : (qc % 2 != 0) = true
+            · simp only [c2, ↓reduceIte]; exact hskip qc
+            · simp only [c2, Bool.false_eq_true, ↓reduceIte]; exact hkeep
           · simp only [c4, Bool.false_eq_true, ↓reduceIte]
             by_cases c5 : (ch == QUOTE) = true
             · simp only [c5, ↓reduceIte]
@@ -273,19 +312,15 @@ theorem renderField_true (f : List Byte) : renderField true f = QUOTE :: (esc f 
 def hd (l : List Byte) : Byte := l.headD 0
 
 /-- the functional scanner walks through escaped content and accumulates exactly the content
-(as `Sim.qscan_content`) -/
-theorem qscan_content (delim : Byte) (hdq : delim ≠ 34) : ∀ (content tail acc : List Byte), CR ∉ content → tail ≠ [] →
+(as `Sim.qscan_content`) — whatever the content: delimiters, line feeds, quotes and, since the repair of
+`nextQuotedField`, carriage returns -/
+theorem qscan_content (delim : Byte) (hdq : delim ≠ 34) : ∀ (content tail acc : List Byte), tail ≠ [] →
     qscan delim (esc content ++ tail) acc 0 (hd (esc content ++ tail)) = qscan delim tail (acc ++ content) 0 (hd tail) := by
   intro content
   induction content with
-  | nil => intro tail acc _ _; simp [esc]
+  | nil => intro tail acc _; simp [esc]
   | cons b bs ih =>
-    intro tail acc hcr ht
-    have hb : (b == CR) = false := by
-      cases hv : b == CR with
-      | false => rfl
-      | true => exact absurd (by simp at hv; simp [hv]) hcr
-    have hcr' : CR ∉ bs := fun h => hcr (List.mem_cons_of_mem _ h)
+    intro tail acc ht
     obtain ⟨r0, rs, hr⟩ : ∃ r0 rs, esc bs ++ tail = r0 :: rs := by
       cases h : esc bs ++ tail with
       | nil => simp at h; exact absurd h.2 ht
@@ -301,7 +336,7 @@ theorem qscan_content (delim : Byte) (hdq : delim ≠ 34) : ∀ (content tail ac
       have step2 : qscan delim (34 :: r0 :: rs) acc 1 34 = qscan delim (r0 :: rs) (acc ++ [34]) 0 r0 := by
         simp [qscan, h34, QUOTE, LF, CR]
       rw [step1, step2, ← hr]
-      have := ih tail (acc ++ [34]) hcr' ht
+      have := ih tail (acc ++ [34]) ht
       rw [hr] at this ⊢
       simp only [hd, List.headD_cons] at this
       rw [this]; simp
@@ -316,9 +351,12 @@ theorem qscan_content (delim : Byte) (hdq : delim ≠ 34) : ∀ (content tail ac
         · simp only [d, Bool.false_eq_true, ↓reduceIte]
           by_cases l : (b == LF) = true
           · simp [l]
-          · simp [l, hb, hq'']
+          · simp only [l, Bool.false_eq_true, ↓reduceIte]
+            by_cases c : (b == CR) = true
+            · simp [c]
+            · simp [c, hq'']
       rw [step, ← hr]
-      have := ih tail (acc ++ [b]) hcr' ht
+      have := ih tail (acc ++ [b]) ht
       rw [hr] at this ⊢
       simp only [hd, List.headD_cons] at this
       rw [this]; simp
@@ -339,16 +377,29 @@ theorem qscan_close (delim : Byte) (hd1 : delim ≠ 34) (hd2 : delim ≠ 10) (ac
     have : ¬ (10 : UInt8) = delim := fun h => hd2 h.symm
     simp [qscan, LF, this]
 
-/-- the closing quote followed by the very last byte of the input: that byte is never examined -/
-theorem qscan_close_eof (delim : Byte) (hd1 : delim ≠ 34) (acc : List Byte) (term : Byte) :
+/-- the closing quote followed by the very last byte of the input, which is not the delimiter: that
+byte is never examined -/
+theorem qscan_close_eof (delim : Byte) (hd1 : delim ≠ 34) (acc : List Byte) (term : Byte) (ht : term ≠ delim) :
     qscan delim [QUOTE, term] acc 0 QUOTE = (acc, true, some .eof, 1) := by
+  have h34 : ¬ (34 : UInt8) = delim := fun h => hd1 h.symm
+  simp [qscan, h34, QUOTE, LF, CR, ht]
+
+/-- the closing quote followed by the delimiter as the very last byte of the input (repaired code): the
+delimiter is consumed, the row goes on -/
+theorem qscan_close_delim_eof (delim : Byte) (hd1 : delim ≠ 34) (acc : List Byte) :
+    qscan delim [QUOTE, delim] acc 0 QUOTE = (acc, false, none, 0) := by
   have h34 : ¬ (34 : UInt8) = delim := fun h => hd1 h.symm
   simp [qscan, h34, QUOTE, LF, CR]
 
+/-- the closing quote is the very last byte of the input -/
+theorem qscan_close_end (delim : Byte) (acc : List Byte) :
+    qscan delim [QUOTE] acc 0 QUOTE = (acc, true, some .eof, 1) := by
+  simp [qscan]
+
 /-- a rendered quoted field from the opening quote at the cursor: the tape machine's result is the
-scanner's result on closing quote + tail, with the content accumulated -/
+scanner's result on closing quote + tail, with the content accumulated (any content, CR included) -/
 theorem quoted_field_scan (delim : Byte) (hd1 : delim ≠ 34) (fuel : Nat) (s : St) (f tail : List Byte)
-    (hf : s.future = []) (hcr : CR ∉ f)
+    (hf : s.future = [])
     (hdr : s.data.drop s.cursor = QUOTE :: (esc f ++ QUOTE :: tail))
     (hfu : s.data.length - s.cursor ≤ fuel) :
     QOut (quoted delim fuel { s with cursor := s.cursor + 1 } (s.cursor + 1) (s.cursor + 1) 0)
@@ -366,7 +417,7 @@ theorem quoted_field_scan (delim : Byte) (hd1 : delim ≠ 34) (fuel : Nat) (s : 
     (hd (esc f ++ QUOTE :: tail)) hf (Nat.le_refl _) (Nat.le_refl _) (by show s.cursor + 1 ≤ s.data.length; omega)
     (by simp) hp (by show s.data.length - (s.cursor + 1) < fuel; omega)
   simp only [hd'] at this
-  rw [qscan_content delim hd1 f (QUOTE :: tail) [] hcr (by simp)] at this
+  rw [qscan_content delim hd1 f (QUOTE :: tail) [] (by simp)] at this
   simpa [hd] using this
 
 theorem cursor_of_len {α} {l : List α} {c k : Nat} {pre rest : List α} (h : l.drop c = pre ++ rest)
@@ -374,22 +425,22 @@ theorem cursor_of_len {α} {l : List α} {c k : Nat} {pre rest : List α} (h : l
   have := congrArg List.length h
   simp at this; omega
 
-/-- Step 2. A rendered quoted field followed by `term` ∈ {delim, LF} and at least one more byte: the
-quoted scanner returns the field's content and stops right after `term`; the buffer from there on is
-untouched. -/
+/-- Step 2. A rendered quoted field (any content) followed by `term` ∈ {delim, LF} and at least one more
+byte: the quoted scanner returns the field's content and stops right after `term`; the buffer from
+there on is untouched. -/
 theorem quoted_field (delim : Byte) (hd1 : delim ≠ 34) (hd2 : delim ≠ 10) (fuel : Nat) (s : St)
     (f : List Byte) (term r0 : Byte) (rs : List Byte)
-    (hf : s.future = []) (hcr : CR ∉ f) (ht : term = delim ∨ term = LF)
+    (hf : s.future = []) (ht : term = delim ∨ term = LF)
     (hdr : s.data.drop s.cursor = QUOTE :: (esc f ++ QUOTE :: term :: r0 :: rs))
     (hfu : s.data.length - s.cursor ≤ fuel) :
     ∃ s', quoted delim fuel { s with cursor := s.cursor + 1 } (s.cursor + 1) (s.cursor + 1) 0
         = some (⟨f, term == LF, none⟩, s') ∧
-      s'.future = [] ∧ s'.cursor ≤ s'.data.length ∧ s'.data.drop s'.cursor = r0 :: rs := by
-  have := quoted_field_scan delim hd1 fuel s f (term :: r0 :: rs) hf hcr hdr hfu
+      s'.future = [] ∧ s'.cursor ≤ s'.data.length ∧ s'.data.drop s'.cursor = r0 :: rs ∧ s.cursor < s'.cursor := by
+  have := quoted_field_scan delim hd1 fuel s f (term :: r0 :: rs) hf hdr hfu
   rw [qscan_close delim hd1 hd2 f term r0 rs ht] at this
   obtain ⟨s', a1, a2, a3, a4, a5, a6⟩ := this
   simp only at a1 a3
-  refine ⟨s', a1, a2, by omega, ?_⟩
+  refine ⟨s', a1, a2, by omega, ?_, by omega⟩
   have hd' : s.data.drop s.cursor = (QUOTE :: (esc f ++ [QUOTE, term])) ++ (r0 :: rs) := by
     rw [hdr]; simp
   have hc : s.cursor ≤ s.data.length := by have := (drop_cons_inv hdr).1; omega
@@ -397,17 +448,42 @@ theorem quoted_field (delim : Byte) (hd1 : delim ≠ 34) (hd2 : delim ≠ 10) (f
   rw [a6, hk]
   exact drop_add_of_append hd'
 
-/-- Step 2, at the end of the input: a rendered quoted field followed by one last byte. The last
-byte is never examined; the field comes back with `hitEOL` and `eof`. -/
+/-- Step 2, at the end of the input: a rendered quoted field followed by one last byte other than the
+delimiter. The last byte is never examined; the field comes back with `hitEOL` and `eof`. -/
 theorem quoted_field_eof (delim : Byte) (hd1 : delim ≠ 34) (fuel : Nat) (s : St)
     (f : List Byte) (term : Byte)
-    (hf : s.future = []) (hcr : CR ∉ f)
+    (hf : s.future = []) (ht : term ≠ delim)
     (hdr : s.data.drop s.cursor = QUOTE :: (esc f ++ [QUOTE, term]))
     (hfu : s.data.length - s.cursor ≤ fuel) :
     ∃ s', quoted delim fuel { s with cursor := s.cursor + 1 } (s.cursor + 1) (s.cursor + 1) 0
         = some (⟨f, true, some .eof⟩, s') ∧ s'.future = [] ∧ s'.cursor ≤ s'.data.length := by
-  have := quoted_field_scan delim hd1 fuel s f [term] hf hcr hdr hfu
-  rw [qscan_close_eof delim hd1 f term] at this
+  have := quoted_field_scan delim hd1 fuel s f [term] hf hdr hfu
+  rw [qscan_close_eof delim hd1 f term ht] at this
+  obtain ⟨s', a1, a2, a3, a4, a5, a6⟩ := this
+  exact ⟨s', a1, a2, by simp only at a3; omega⟩
+
+/-- Step 2, at the end of the input (repaired code): a rendered quoted field followed by the delimiter
+as the last byte. The field comes back, the delimiter is consumed, the row is not finished. -/
+theorem quoted_field_delim_eof (delim : Byte) (hd1 : delim ≠ 34) (fuel : Nat) (s : St) (f : List Byte)
+    (hf : s.future = [])
+    (hdr : s.data.drop s.cursor = QUOTE :: (esc f ++ [QUOTE, delim]))
+    (hfu : s.data.length - s.cursor ≤ fuel) :
+    ∃ s', quoted delim fuel { s with cursor := s.cursor + 1 } (s.cursor + 1) (s.cursor + 1) 0
+        = some (⟨f, false, none⟩, s') ∧ s'.future = [] ∧ s'.cursor = s'.data.length ∧ 0 < s'.cursor := by
+  have := quoted_field_scan delim hd1 fuel s f [delim] hf hdr hfu
+  rw [qscan_close_delim_eof delim hd1 f] at this
+  obtain ⟨s', a1, a2, a3, a4, a5, a6⟩ := this
+  exact ⟨s', a1, a2, by simp only at a3; omega, by omega⟩
+
+/-- Step 2, at the end of the input: a rendered quoted field whose closing quote is the last byte. -/
+theorem quoted_field_end (delim : Byte) (hd1 : delim ≠ 34) (fuel : Nat) (s : St) (f : List Byte)
+    (hf : s.future = [])
+    (hdr : s.data.drop s.cursor = QUOTE :: (esc f ++ [QUOTE]))
+    (hfu : s.data.length - s.cursor ≤ fuel) :
+    ∃ s', quoted delim fuel { s with cursor := s.cursor + 1 } (s.cursor + 1) (s.cursor + 1) 0
+        = some (⟨f, true, some .eof⟩, s') ∧ s'.future = [] ∧ s'.cursor ≤ s'.data.length := by
+  have := quoted_field_scan delim hd1 fuel s f [] hf hdr hfu
+  rw [qscan_close_end delim f] at this
   obtain ⟨s', a1, a2, a3, a4, a5, a6⟩ := this
   exact ⟨s', a1, a2, by simp only at a3; omega⟩
 
@@ -430,7 +506,7 @@ theorem fnext_unquoted (delim : Byte) (hd1 : delim ≠ 34) (hd2 : delim ≠ 10) 
     (hm : mustQuote delim f = false) (ht : term = delim ∨ term = LF) (hfu : (f ++ term :: rest).length ≤ fuel) :
     ∃ fs', fnext delim fuel fs = some (fs', true) ∧ fs'.field = f ∧ fs'.st.future = [] ∧ fs'.err = none ∧
       fs'.st.data.drop fs'.st.cursor = rest ∧ fs'.st.cursor ≤ fs'.st.data.length ∧
-      fs'.hitEOL = (term == LF) ∧ (term = delim → fs'.fieldStart = fs'.st.cursor) := by
+      fs'.hitEOL = (term == LF) ∧ (term = delim → fs'.fieldStart = fs'.st.cursor) ∧ fs.st.cursor < fs'.st.cursor := by
   have hall := QF.Props.C13.not_mustQuote hm
   have hall' : ∀ c ∈ f, c ≠ delim ∧ c ≠ LF := fun c hc => ⟨(hall c hc).1, (hall c hc).2.2.1⟩
   obtain ⟨x, xs, hx⟩ : ∃ x xs, f ++ term :: rest = x :: xs := by
@@ -466,7 +542,8 @@ theorem fnext_unquoted (delim : Byte) (hd1 : delim ≠ 34) (hd2 : delim ≠ 10) 
   have hlen : fs.st.cursor + f.length + 1 ≤ fs.st.data.length := by
     have := ready_len hr
     simp at this; omega
-  refine ⟨fs', h1, ?_, h3, by rw [h6, hr.err], hdrop, by rw [h2, h4]; exact hlen, ?_, ?_⟩
+  refine ⟨fs', h1, ?_, h3, by rw [h6, hr.err], hdrop, by rw [h2, h4]; exact hlen, ?_, ?_,
+    by rw [h4]; show fs.st.cursor < fs.st.cursor + f.length + 1; omega⟩
   · rw [h5, hr.fstart]
     exact slice_of_drop hr.drop
   · rw [h7]
@@ -482,32 +559,31 @@ theorem fnext_unquoted (delim : Byte) (hd1 : delim ≠ 34) (hd2 : delim ≠ 10) 
 theorem fnext_quoted (delim : Byte) (hd1 : delim ≠ 34) (hd2 : delim ≠ 10) (fuel : Nat) (fs : FS)
     (f : List Byte) (term r0 : Byte) (rs : List Byte)
     (hr : Ready fs (renderField true f ++ term :: r0 :: rs))
-    (hcr : CR ∉ f) (ht : term = delim ∨ term = LF)
+    (ht : term = delim ∨ term = LF)
     (hfu : (renderField true f ++ term :: r0 :: rs).length ≤ fuel) :
     ∃ fs', fnext delim fuel fs = some (fs', true) ∧ fs'.field = f ∧ fs'.st.future = [] ∧ fs'.err = none ∧
       fs'.st.data.drop fs'.st.cursor = r0 :: rs ∧ fs'.st.cursor ≤ fs'.st.data.length ∧
-      fs'.hitEOL = (term == LF) ∧ (term = delim → fs'.fieldStart = fs'.st.cursor) := by
+      fs'.hitEOL = (term == LF) ∧ (term = delim → fs'.fieldStart = fs'.st.cursor) ∧ fs.st.cursor < fs'.st.cursor := by
   have hdx : fs.st.data.drop fs.st.cursor = QUOTE :: (esc f ++ QUOTE :: term :: r0 :: rs) := by
     rw [hr.drop, renderField_true]; simp
   obtain ⟨hlt, hget, _⟩ := drop_cons_inv hdx
-  obtain ⟨s', q1, q2, q3, q4⟩ := quoted_field delim hd1 hd2 fuel fs.st f term r0 rs hr.fut hcr ht hdx
+  obtain ⟨s', q1, q2, q3, q4, q5⟩ := quoted_field delim hd1 hd2 fuel fs.st f term r0 rs hr.fut ht hdx
     (by rw [ready_len hr]; exact hfu)
   unfold fnext
   simp only [hr.eol, Bool.false_eq_true, ↓reduceIte]
   rw [ens1_at _ hr.fut hlt]
   simp only [hget, beq_self_eq_true, ↓reduceIte, q1]
-  exact ⟨_, rfl, rfl, q2, rfl, q4, q3, rfl, fun _ => rfl⟩
+  exact ⟨_, rfl, rfl, q2, rfl, q4, q3, rfl, fun _ => rfl, q5⟩
 
 theorem fnext_quoted_eof (delim : Byte) (hd1 : delim ≠ 34) (fuel : Nat) (fs : FS)
     (f : List Byte) (term : Byte)
-    (hr : Ready fs (renderField true f ++ [term]))
-    (hcr : CR ∉ f)
+    (hr : Ready fs (renderField true f ++ [term])) (ht : term ≠ delim)
     (hfu : (renderField true f ++ [term]).length ≤ fuel) :
     ∃ fs', fnext delim fuel fs = some (fs', true) ∧ fs'.field = f ∧ fs'.hitEOL = true ∧ fs'.err = some .eof := by
   have hdx : fs.st.data.drop fs.st.cursor = QUOTE :: (esc f ++ [QUOTE, term]) := by
     rw [hr.drop, renderField_true]; simp
   obtain ⟨hlt, hget, _⟩ := drop_cons_inv hdx
-  obtain ⟨s', q1, q2, q3⟩ := quoted_field_eof delim hd1 fuel fs.st f term hr.fut hcr hdx
+  obtain ⟨s', q1, q2, q3⟩ := quoted_field_eof delim hd1 fuel fs.st f term hr.fut ht hdx
     (by rw [ready_len hr]; exact hfu)
   unfold fnext
   simp only [hr.eol, Bool.false_eq_true, ↓reduceIte]
@@ -515,12 +591,151 @@ theorem fnext_quoted_eof (delim : Byte) (hd1 : delim ≠ 34) (fuel : Nat) (fs : 
   simp only [hget, beq_self_eq_true, ↓reduceIte, q1]
   exact ⟨_, rfl, rfl, rfl, rfl⟩
 
-/-- what the proof needs of a field: quoted if it must be, and no CR inside -/
+/-- repaired code: a quoted field followed by the delimiter as the last byte of the input -/
+theorem fnext_quoted_delim_eof (delim : Byte) (hd1 : delim ≠ 34) (fuel : Nat) (fs : FS) (f : List Byte)
+    (hr : Ready fs (renderField true f ++ [delim]))
+    (hfu : (renderField true f ++ [delim]).length ≤ fuel) :
+    ∃ fs', fnext delim fuel fs = some (fs', true) ∧ fs'.field = f ∧ Ready fs' [] ∧ 0 < fs'.st.cursor := by
+  have hdx : fs.st.data.drop fs.st.cursor = QUOTE :: (esc f ++ [QUOTE, delim]) := by
+    rw [hr.drop, renderField_true]; simp
+  obtain ⟨hlt, hget, _⟩ := drop_cons_inv hdx
+  obtain ⟨s', q1, q2, q3, q4⟩ := quoted_field_delim_eof delim hd1 fuel fs.st f hr.fut hdx
+    (by rw [ready_len hr]; exact hfu)
+  unfold fnext
+  simp only [hr.eol, Bool.false_eq_true, ↓reduceIte]
+  rw [ens1_at _ hr.fut hlt]
+  simp only [hget, beq_self_eq_true, ↓reduceIte, q1]
+  exact ⟨_, rfl, rfl, ⟨q2, rfl, rfl, List.drop_eq_nil_of_le (by show s'.data.length ≤ s'.cursor; omega),
+    by show s'.cursor ≤ s'.data.length; omega, rfl⟩, q4⟩
+
+/-- a quoted field whose closing quote is the last byte of the input -/
+theorem fnext_quoted_end (delim : Byte) (hd1 : delim ≠ 34) (fuel : Nat) (fs : FS) (f : List Byte)
+    (hr : Ready fs (renderField true f))
+    (hfu : (renderField true f).length ≤ fuel) :
+    ∃ fs', fnext delim fuel fs = some (fs', true) ∧ fs'.field = f ∧ fs'.hitEOL = true ∧ fs'.err = some .eof := by
+  have hdx : fs.st.data.drop fs.st.cursor = QUOTE :: (esc f ++ [QUOTE]) := by
+    rw [hr.drop, renderField_true]
+  obtain ⟨hlt, hget, _⟩ := drop_cons_inv hdx
+  obtain ⟨s', q1, q2, q3⟩ := quoted_field_end delim hd1 fuel fs.st f hr.fut hdx
+    (by rw [ready_len hr]; exact hfu)
+  unfold fnext
+  simp only [hr.eol, Bool.false_eq_true, ↓reduceIte]
+  rw [ens1_at _ hr.fut hlt]
+  simp only [hget, beq_self_eq_true, ↓reduceIte, q1]
+  exact ⟨_, rfl, rfl, rfl, rfl⟩
+
+/-- An unquoted field `f` (no delimiter, no LF) up to the end of the input: the unquoted scanner
+returns the slice from `fieldStart` to the end, with `hitEOL` and `eof`. -/
+theorem unq_field_eof (delim : Byte) : ∀ (f : List Byte) (fuel : Nat) (fs : FS),
+    fs.st.future = [] → (∀ c ∈ f, c ≠ delim ∧ c ≠ LF) →
+    fs.st.data.drop fs.st.cursor = f → f.length < fuel →
+    ∃ fs', unq delim fuel fs = some (fs', true) ∧
+      fs'.field = fs.st.slice fs.fieldStart (fs.st.cursor + f.length) ∧ fs'.hitEOL = true ∧ fs'.err = some .eof := by
+  intro f
+  induction f with
+  | nil =>
+    intro fuel fs hf _ hd hfu
+    have hge : fs.st.cursor ≥ fs.st.data.length := List.drop_eq_nil_iff.mp hd
+    cases fuel with
+    | zero => simp at hfu
+    | succ n =>
+      unfold unq
+      rw [ens1_loaded _ hf]
+      simp only [hge, ↓reduceIte]
+      exact ⟨_, rfl, rfl, rfl, rfl⟩
+  | cons b bs ih =>
+    intro fuel fs hf hall hd hfu
+    obtain ⟨hlt, hget, hd'⟩ := drop_cons_inv hd
+    have hb := hall b (by simp)
+    have hall' : ∀ c ∈ bs, c ≠ delim ∧ c ≠ LF := fun c hc => hall c (by simp [hc])
+    cases fuel with
+    | zero => simp at hfu
+    | succ n =>
+      unfold unq
+      rw [ens1_at _ hf hlt]
+      simp only [hget]
+      have c1 : (b == delim) = false := by simpa using hb.1
+      have c2 : (b == LF) = false := by simpa using hb.2
+      simp only [c1, c2, Bool.false_eq_true, ↓reduceIte]
+      obtain ⟨fs', h1, h2, h3, h4⟩ :=
+        ih n { fs with st := { fs.st with cursor := fs.st.cursor + 1 } } hf hall' hd' (by simp at hfu; omega)
+      refine ⟨fs', h1, ?_, h3, h4⟩
+      rw [h2]; simp only [St.slice, List.length_cons]
+      have : fs.st.cursor + 1 + bs.length = fs.st.cursor + (bs.length + 1) := by omega
+      rw [this]
+
+/-- a non-empty unquoted field up to the end of the input -/
+theorem fnext_unquoted_end (delim : Byte) (fuel : Nat) (fs : FS) (f : List Byte)
+    (hr : Ready fs f) (hne : f ≠ []) (hm : mustQuote delim f = false) (hfu : f.length < fuel) :
+    ∃ fs', fnext delim fuel fs = some (fs', true) ∧ fs'.field = f ∧ fs'.hitEOL = true ∧ fs'.err = some .eof := by
+  have hall := QF.Props.C13.not_mustQuote hm
+  have hall' : ∀ c ∈ f, c ≠ delim ∧ c ≠ LF := fun c hc => ⟨(hall c hc).1, (hall c hc).2.2.1⟩
+  obtain ⟨x, xs, hx⟩ : ∃ x xs, f = x :: xs := by
+    cases f with
+    | nil => exact absurd rfl hne
+    | cons x xs => exact ⟨x, xs, rfl⟩
+  have hxq : (x == QUOTE) = false := by
+    have := (hall x (by rw [hx]; simp)).2.1
+    simpa [QUOTE] using this
+  have hdx := hr.drop
+  rw [hx] at hdx
+  obtain ⟨hlt, hget, _⟩ := drop_cons_inv hdx
+  unfold fnext
+  simp only [hr.eol, Bool.false_eq_true, ↓reduceIte]
+  rw [ens1_at _ hr.fut hlt]
+  simp only [hget, hxq, Bool.false_eq_true, ↓reduceIte]
+  obtain ⟨fs', h1, h2, h3, h4⟩ :=
+    unq_field_eof delim f fuel { fs with st := fs.st, hitEOL := false } hr.fut hall' hr.drop hfu
+  refine ⟨fs', h1, ?_, h3, h4⟩
+  rw [h2, hr.fstart]
+  have hd0 : fs.st.data.drop fs.st.cursor = f ++ [] := by rw [hr.drop]; simp
+  exact slice_of_drop hd0
+
+/-- repaired code: the input ends right after a delimiter of this row — one more, empty, field -/
+theorem fnext_empty_end (delim : Byte) (fuel : Nat) (fs : FS) (hr : Ready fs []) (hpos : 0 < fs.st.cursor) :
+    ∃ fs', fnext delim fuel fs = some (fs', true) ∧ fs'.field = [] ∧ fs'.hitEOL = true ∧ fs'.err = some .eof := by
+  have hge : fs.st.cursor ≥ fs.st.data.length := List.drop_eq_nil_iff.mp hr.drop
+  have hfs : fs.fieldStart > 0 := by rw [hr.fstart]; exact hpos
+  unfold fnext
+  simp only [hr.eol, Bool.false_eq_true, ↓reduceIte]
+  rw [ens1_loaded _ hr.fut]
+  simp only [hge, hfs, ↓reduceIte]
+  refine ⟨_, rfl, ?_, rfl, rfl⟩
+  show fs.st.slice fs.fieldStart fs.fieldStart = []
+  simp [St.slice]
+
+/-- what the proof needs of a field: it is quoted if it must be (so an unquoted field contains no
+delimiter, quote, LF, CR). A quoted field may contain anything, CR included. -/
+def FieldOk' (delim : Byte) (p : Bool × List Byte) : Prop :=
+  mustQuote delim p.2 = true → p.1 = true
+
+/-- the hypothesis of the theorems before the repair of `nextQuotedField`: moreover no CR inside -/
 def FieldOk (delim : Byte) (p : Bool × List Byte) : Prop :=
   (mustQuote delim p.2 = true → p.1 = true) ∧ CR ∉ p.2
 
+instance (delim : Byte) (p : Bool × List Byte) : Decidable (FieldOk' delim p) := by
+  unfold FieldOk'; infer_instance
+
 instance (delim : Byte) (p : Bool × List Byte) : Decidable (FieldOk delim p) := by
   unfold FieldOk; infer_instance
+
+theorem FieldOk.weaken {delim : Byte} {p : Bool × List Byte} (h : FieldOk delim p) : FieldOk' delim p := h.1
+
+/-- `Reader.Next` drops one trailing CR of the last field of a row (CRLF support), so that field must
+not end with CR. (For an unquoted field this follows from `FieldOk'`.) -/
+def LastNoCR (r : List (Bool × List Byte)) : Prop :=
+  ∀ p, r.getLast? = some p → p.2.getLast? ≠ some CR
+
+instance (r : List (Bool × List Byte)) : Decidable (LastNoCR r) :=
+  match h : r.getLast? with
+  | none => isTrue (fun p hp => by rw [h] at hp; cases hp)
+  | some q =>
+    if hq : q.2.getLast? = some CR then isFalse (fun hh => hh q h hq)
+    else isTrue (fun p hp => by rw [h] at hp; cases hp; exact hq)
+
+theorem lastNoCR_of_noCR {r : List (Bool × List Byte)} (h : ∀ p ∈ r, CR ∉ p.2) : LastNoCR r := by
+  intro p hp hl
+  exact h p (List.mem_of_getLast? hp) (List.mem_of_getLast? hl)
 
 /-- loaded reader state between two rows, `D` = the unread bytes: either no error so far, or the
 input is exhausted and `eof` has already been recorded (by the quoted scanner's look-ahead) -/
@@ -531,35 +746,48 @@ def AtRow (fs : FS) (D : List Byte) : Prop :=
 /-- loaded reader state after the last field of a row -/
 def Done (fs : FS) (D : List Byte) : Prop := fs.hitEOL = true ∧ AtRow fs D
 
-theorem mustQuote_false_of {delim : Byte} {p : Bool × List Byte} (h : FieldOk delim p) (hq : p.1 = false) :
+theorem mustQuote_false_of {delim : Byte} {p : Bool × List Byte} (h : FieldOk' delim p) (hq : p.1 = false) :
     mustQuote delim p.2 = false := by
   cases hm : mustQuote delim p.2 with
   | false => rfl
-  | true => rw [h.1 hm] at hq; exact absurd hq (by simp)
+  | true => rw [h hm] at hq; exact absurd hq (by simp)
 
-/-- Step 3a. A rendered field followed by the delimiter and more bytes. -/
-theorem fnext_field_mid (delim : Byte) (hd1 : delim ≠ 34) (hd2 : delim ≠ 10) (fuel : Nat) (fs : FS)
-    (p : Bool × List Byte) (r0 : Byte) (rs : List Byte) (hp : FieldOk delim p)
-    (hr : Ready fs (renderField p.1 p.2 ++ delim :: r0 :: rs))
-    (hfu : (renderField p.1 p.2 ++ delim :: r0 :: rs).length ≤ fuel) :
-    ∃ fs', fnext delim fuel fs = some (fs', true) ∧ fs'.field = p.2 ∧ Ready fs' (r0 :: rs) := by
+/-- Step 3a. A rendered field followed by the delimiter, whatever follows — more bytes or (repaired
+code) the end of the input. -/
+theorem fnext_field_delim (delim : Byte) (hd1 : delim ≠ 34) (hd2 : delim ≠ 10) (fuel : Nat) (fs : FS)
+    (p : Bool × List Byte) (rest : List Byte) (hp : FieldOk' delim p)
+    (hr : Ready fs (renderField p.1 p.2 ++ delim :: rest))
+    (hfu : (renderField p.1 p.2 ++ delim :: rest).length ≤ fuel) :
+    ∃ fs', fnext delim fuel fs = some (fs', true) ∧ fs'.field = p.2 ∧ Ready fs' rest ∧ 0 < fs'.st.cursor := by
   have hne : (delim == LF) = false := by simpa [LF] using hd2
   obtain ⟨q, f⟩ := p
   cases q with
   | true =>
-    obtain ⟨fs', a1, a2, a3, a4, a5, a6, a7, a8⟩ :=
-      fnext_quoted delim hd1 hd2 fuel fs f delim r0 rs hr hp.2 (Or.inl rfl) hfu
-    exact ⟨fs', a1, a2, ⟨a3, by rw [a7, hne], a8 rfl, a5, a6, a4⟩⟩
+    cases rest with
+    | nil => exact fnext_quoted_delim_eof delim hd1 fuel fs f hr hfu
+    | cons r0 rs =>
+      obtain ⟨fs', a1, a2, a3, a4, a5, a6, a7, a8, a9⟩ :=
+        fnext_quoted delim hd1 hd2 fuel fs f delim r0 rs hr (Or.inl rfl) hfu
+      exact ⟨fs', a1, a2, ⟨a3, by rw [a7, hne], a8 rfl, a5, a6, a4⟩, by omega⟩
   | false =>
     have hm := mustQuote_false_of hp rfl
     simp only [renderField, Bool.false_eq_true, ↓reduceIte] at hr hfu
-    obtain ⟨fs', a1, a2, a3, a4, a5, a6, a7, a8⟩ :=
-      fnext_unquoted delim hd1 hd2 fuel fs f delim (r0 :: rs) hr hm (Or.inl rfl) hfu
-    exact ⟨fs', a1, a2, ⟨a3, by rw [a7, hne], a8 rfl, a5, a6, a4⟩⟩
+    obtain ⟨fs', a1, a2, a3, a4, a5, a6, a7, a8, a9⟩ :=
+      fnext_unquoted delim hd1 hd2 fuel fs f delim rest hr hm (Or.inl rfl) hfu
+    exact ⟨fs', a1, a2, ⟨a3, by rw [a7, hne], a8 rfl, a5, a6, a4⟩, by omega⟩
+
+/-- Step 3a as it was stated before the repair: a rendered field followed by the delimiter and more bytes. -/
+theorem fnext_field_mid (delim : Byte) (hd1 : delim ≠ 34) (hd2 : delim ≠ 10) (fuel : Nat) (fs : FS)
+    (p : Bool × List Byte) (r0 : Byte) (rs : List Byte) (hp : FieldOk' delim p)
+    (hr : Ready fs (renderField p.1 p.2 ++ delim :: r0 :: rs))
+    (hfu : (renderField p.1 p.2 ++ delim :: r0 :: rs).length ≤ fuel) :
+    ∃ fs', fnext delim fuel fs = some (fs', true) ∧ fs'.field = p.2 ∧ Ready fs' (r0 :: rs) := by
+  obtain ⟨fs', a1, a2, a3, _⟩ := fnext_field_delim delim hd1 hd2 fuel fs p (r0 :: rs) hp hr hfu
+  exact ⟨fs', a1, a2, a3⟩
 
 /-- Step 3b. A rendered field followed by LF (end of the row), whatever follows. -/
 theorem fnext_field_last (delim : Byte) (hd1 : delim ≠ 34) (hd2 : delim ≠ 10) (fuel : Nat) (fs : FS)
-    (p : Bool × List Byte) (rest : List Byte) (hp : FieldOk delim p)
+    (p : Bool × List Byte) (rest : List Byte) (hp : FieldOk' delim p)
     (hr : Ready fs (renderField p.1 p.2 ++ LF :: rest))
     (hfu : (renderField p.1 p.2 ++ LF :: rest).length ≤ fuel) :
     ∃ fs', fnext delim fuel fs = some (fs', true) ∧ fs'.field = p.2 ∧ Done fs' rest := by
@@ -568,18 +796,37 @@ theorem fnext_field_last (delim : Byte) (hd1 : delim ≠ 34) (hd2 : delim ≠ 10
   | true =>
     cases rest with
     | nil =>
-      obtain ⟨fs', a1, a2, a3, a4⟩ := fnext_quoted_eof delim hd1 fuel fs f LF hr hp.2 hfu
+      have hlf : LF ≠ delim := fun h => hd2 (by rw [← h]; rfl)
+      obtain ⟨fs', a1, a2, a3, a4⟩ := fnext_quoted_eof delim hd1 fuel fs f LF hr hlf hfu
       exact ⟨fs', a1, a2, a3, Or.inr ⟨rfl, a4⟩⟩
     | cons r0 rs =>
-      obtain ⟨fs', a1, a2, a3, a4, a5, a6, a7, a8⟩ :=
-        fnext_quoted delim hd1 hd2 fuel fs f LF r0 rs hr hp.2 (Or.inr rfl) hfu
+      obtain ⟨fs', a1, a2, a3, a4, a5, a6, a7, a8, _⟩ :=
+        fnext_quoted delim hd1 hd2 fuel fs f LF r0 rs hr (Or.inr rfl) hfu
       exact ⟨fs', a1, a2, by rw [a7]; rfl, Or.inl ⟨a4, a3, a5, a6⟩⟩
   | false =>
     have hm := mustQuote_false_of hp rfl
     simp only [renderField, Bool.false_eq_true, ↓reduceIte] at hr hfu
-    obtain ⟨fs', a1, a2, a3, a4, a5, a6, a7, a8⟩ :=
+    obtain ⟨fs', a1, a2, a3, a4, a5, a6, a7, a8, _⟩ :=
       fnext_unquoted delim hd1 hd2 fuel fs f LF rest hr hm (Or.inr rfl) hfu
     exact ⟨fs', a1, a2, by rw [a7]; rfl, Or.inl ⟨a4, a3, a5, a6⟩⟩
+
+/-- Step 3b'. A rendered field up to the end of the input (last field of a last row without line break):
+quoted; or unquoted and non-empty; or (repaired code) unquoted, empty and preceded by a delimiter. -/
+theorem fnext_field_end (delim : Byte) (hd1 : delim ≠ 34) (fuel : Nat) (fs : FS)
+    (p : Bool × List Byte) (hp : FieldOk' delim p)
+    (hr : Ready fs (renderField p.1 p.2)) (hpos : p = (false, []) → 0 < fs.st.cursor)
+    (hfu : (renderField p.1 p.2).length < fuel) :
+    ∃ fs', fnext delim fuel fs = some (fs', true) ∧ fs'.field = p.2 ∧ fs'.hitEOL = true ∧ fs'.err = some .eof := by
+  obtain ⟨q, f⟩ := p
+  cases q with
+  | true => exact fnext_quoted_end delim hd1 fuel fs f hr (Nat.le_of_lt hfu)
+  | false =>
+    have hm := mustQuote_false_of hp rfl
+    simp only [renderField, Bool.false_eq_true, ↓reduceIte] at hr hfu
+    by_cases hf : f = []
+    · subst hf
+      exact fnext_empty_end delim fuel fs hr (hpos rfl)
+    · exact fnext_unquoted_end delim fuel fs f hr hf hm hfu
 
 theorem renderRow_cons2 (delim : Byte) (p q : Bool × List Byte) (xs : List (Bool × List Byte)) (rest : List Byte) :
     renderRow delim (p :: q :: xs) ++ rest = renderField p.1 p.2 ++ delim :: (renderRow delim (q :: xs) ++ rest) := by
@@ -588,6 +835,13 @@ theorem renderRow_cons2 (delim : Byte) (p q : Bool × List Byte) (xs : List (Boo
 theorem renderRow_single (delim : Byte) (p : Bool × List Byte) (rest : List Byte) :
     renderRow delim [p] ++ rest = renderField p.1 p.2 ++ LF :: rest := by
   simp [renderRow, renderFields, LF]
+
+theorem renderFields_cons2 (delim : Byte) (p q : Bool × List Byte) (xs : List (Bool × List Byte)) :
+    renderFields delim (p :: q :: xs) = renderField p.1 p.2 ++ delim :: renderFields delim (q :: xs) := by
+  simp [renderFields]
+
+theorem renderFields_single (delim : Byte) (p : Bool × List Byte) :
+    renderFields delim [p] = renderField p.1 p.2 := rfl
 
 theorem renderRow_ne_nil (delim : Byte) (r : List (Bool × List Byte)) : renderRow delim r ≠ [] := by
   simp [renderRow]
@@ -603,10 +857,30 @@ theorem length_le_renderRow (delim : Byte) : ∀ r : List (Bool × List Byte), r
     simp only [List.length_append, List.length_cons] at this ⊢
     omega
 
+theorem length_le_renderFields (delim : Byte) : ∀ r : List (Bool × List Byte), r.length ≤ (renderFields delim r).length + 1
+  | [] => by simp
+  | [p] => by simp
+  | p :: q :: xs => by
+    have := length_le_renderFields delim (q :: xs)
+    rw [renderFields_cons2]
+    simp only [List.length_append, List.length_cons] at this ⊢
+    omega
+
+/-- an unquoted empty field at the end of a row with at least two fields is rendered as a trailing delimiter -/
+theorem renderFields_trailing (delim : Byte) : ∀ (xs : List (Bool × List Byte)), xs ≠ [] →
+    renderFields delim (xs ++ [(false, [])]) = renderFields delim xs ++ [delim]
+  | [], h => absurd rfl h
+  | [p], _ => by simp [renderFields, renderField]
+  | p :: q :: ys, _ => by
+    have := renderFields_trailing delim (q :: ys) (by simp)
+    simp only [List.cons_append] at this ⊢
+    rw [renderFields_cons2, this, renderFields_cons2]
+    simp
+
 /-- Step 3c. One rendered row through the row loop. -/
 theorem rowLoop_row (delim : Byte) (hd1 : delim ≠ 34) (hd2 : delim ≠ 10) (fuel : Nat) :
     ∀ (r : List (Bool × List Byte)) (n : Nat) (fs : FS) (acc : List (List Byte)) (rest : List Byte),
-    r ≠ [] → (∀ p ∈ r, FieldOk delim p) → Ready fs (renderRow delim r ++ rest) →
+    r ≠ [] → (∀ p ∈ r, FieldOk' delim p) → Ready fs (renderRow delim r ++ rest) →
     (renderRow delim r ++ rest).length ≤ fuel → r.length < n →
     ∃ fs', rowLoop delim fuel n fs acc = some (fs', acc ++ r.map (·.2)) ∧ Done fs' rest := by
   intro r
@@ -627,39 +901,84 @@ theorem rowLoop_row (delim : Byte) (hd1 : delim ≠ 34) (hd2 : delim ≠ 10) (fu
       simp
     | cons q ys =>
       rw [renderRow_cons2] at hr hfu
-      obtain ⟨r0, rs, hrs⟩ : ∃ r0 rs, renderRow delim (q :: ys) ++ rest = r0 :: rs := by
-        cases h : renderRow delim (q :: ys) ++ rest with
-        | nil => simp at h; exact absurd h.1 (renderRow_ne_nil _ _)
-        | cons r0 rs => exact ⟨r0, rs, rfl⟩
-      rw [hrs] at hr hfu
-      obtain ⟨fs1, a1, a2, a3⟩ := fnext_field_mid delim hd1 hd2 fuel fs p r0 rs hp hr hfu
+      obtain ⟨fs1, a1, a2, a3, _⟩ := fnext_field_delim delim hd1 hd2 fuel fs p _ hp hr hfu
       obtain ⟨m, rfl⟩ : ∃ m, n = m + 1 := ⟨n - 1, by simp at hn; omega⟩
-      rw [← hrs] at a3
       obtain ⟨fs', b1, b2⟩ := ih m fs1 (acc ++ [p.2]) rest (by simp)
         (fun p' hp' => hok p' (List.mem_cons_of_mem _ hp')) a3
-        (by rw [hrs]; simp at hfu ⊢; omega) (by simp at hn ⊢; omega)
+        (by simp at hfu ⊢; omega) (by simp at hn ⊢; omega)
       refine ⟨fs', ?_, b2⟩
       simp only [rowLoop, a1, a2, b1]
       simp
 
-theorem trimCR_id (row : List (List Byte)) (h : ∀ f ∈ row, CR ∉ f) : trimCR row = row := by
+/-- Step 3c'. The last row, rendered without line break, through the row loop: the fields come back,
+the reader has recorded `eof`. If the row is the single bare empty field (which renders to nothing),
+a delimiter must have been consumed before. -/
+theorem rowLoop_fields (delim : Byte) (hd1 : delim ≠ 34) (hd2 : delim ≠ 10) (fuel : Nat) :
+    ∀ (r : List (Bool × List Byte)) (n : Nat) (fs : FS) (acc : List (List Byte)),
+    r ≠ [] → (∀ p ∈ r, FieldOk' delim p) → Ready fs (renderFields delim r) →
+    (r = [(false, [])] → 0 < fs.st.cursor) →
+    (renderFields delim r).length < fuel → r.length < n →
+    ∃ fs', rowLoop delim fuel n fs acc = some (fs', acc ++ r.map (·.2)) ∧ fs'.hitEOL = true ∧ fs'.err = some .eof := by
+  intro r
+  induction r with
+  | nil => intro n fs acc h; exact absurd rfl h
+  | cons p xs ih =>
+    intro n fs acc _ hok hr hpos hfu hn
+    have hp := hok p (by simp)
+    cases xs with
+    | nil =>
+      rw [renderFields_single] at hr hfu
+      obtain ⟨fs1, a1, a2, a3, a4⟩ := fnext_field_end delim hd1 fuel fs p hp hr
+        (fun h => hpos (by rw [h])) hfu
+      obtain ⟨m, rfl⟩ : ∃ m, n = m + 2 := ⟨n - 2, by simp at hn; omega⟩
+      refine ⟨fs1, ?_, a3, a4⟩
+      have hstop : fnext delim fuel fs1 = some (fs1, false) := by
+        unfold fnext; simp [a3]
+      simp only [rowLoop, a1, hstop, a2]
+      simp
+    | cons q ys =>
+      rw [renderFields_cons2] at hr hfu
+      obtain ⟨fs1, a1, a2, a3, a4⟩ := fnext_field_delim delim hd1 hd2 fuel fs p _ hp hr (by omega)
+      obtain ⟨m, rfl⟩ : ∃ m, n = m + 1 := ⟨n - 1, by simp at hn; omega⟩
+      obtain ⟨fs', b1, b2⟩ := ih m fs1 (acc ++ [p.2]) (by simp)
+        (fun p' hp' => hok p' (List.mem_cons_of_mem _ hp')) a3 (fun _ => a4)
+        (by simp at hfu ⊢; omega) (by simp at hn ⊢; omega)
+      refine ⟨fs', ?_, b2⟩
+      simp only [rowLoop, a1, a2, b1]
+      simp
+
+/-- `Reader.Next`'s CR trimming does nothing when the last field does not end with CR -/
+theorem trimCR_last (row : List (List Byte)) (h : ∀ f, row.getLast? = some f → f.getLast? ≠ some CR) :
+    trimCR row = row := by
   unfold trimCR
   cases hl : row.getLast? with
   | none => rfl
   | some last =>
-    have hm : last ∈ row := List.mem_of_getLast? hl
     have : (last.getLast? == some CR) = false := by
       cases hc : last.getLast? == some CR with
       | false => rfl
-      | true =>
-        have : last.getLast? = some CR := by simpa using hc
-        exact absurd (List.mem_of_getLast? this) (h last hm)
+      | true => exact absurd (by simpa using hc) (h last hl)
     simp [this]
+
+theorem trimCR_id (row : List (List Byte)) (h : ∀ f ∈ row, CR ∉ f) : trimCR row = row :=
+  trimCR_last row (fun f hf hl => h f (List.mem_of_getLast? hf) (List.mem_of_getLast? hl))
+
+theorem trimCR_map {r : List (Bool × List Byte)} (h : LastNoCR r) : trimCR (r.map (·.2)) = r.map (·.2) := by
+  apply trimCR_last
+  intro f hf
+  rw [List.getLast?_map] at hf
+  cases hl : r.getLast? with
+  | none => rw [hl] at hf; simp at hf
+  | some p =>
+    rw [hl] at hf
+    simp only [Option.map_some, Option.some.injEq] at hf
+    rw [← hf]
+    exact h p hl
 
 /-- Step 3d. One rendered row through `readerNext`. -/
 theorem readerNext_row (delim : Byte) (hd1 : delim ≠ 34) (hd2 : delim ≠ 10) (fuel : Nat)
     (r : List (Bool × List Byte)) (fs : FS) (rest : List Byte)
-    (hne : r ≠ []) (hok : ∀ p ∈ r, FieldOk delim p)
+    (hne : r ≠ []) (hok : ∀ p ∈ r, FieldOk' delim p) (hcr : LastNoCR r)
     (he : fs.err = none) (hf : fs.st.future = []) (hdr : fs.st.data.drop fs.st.cursor = renderRow delim r ++ rest)
     (hfu : (renderRow delim r ++ rest).length < fuel) :
     ∃ fs', readerNext delim fuel fs = some (fs', r.map (·.2), true) ∧ AtRow fs' rest := by
@@ -668,16 +987,38 @@ theorem readerNext_row (delim : Byte) (hd1 : delim ≠ 34) (hd2 : delim ≠ 10) 
     ⟨hf, rfl, rfl, by simpa [St.reset] using hdr, Nat.zero_le _, he⟩
   obtain ⟨fs', a1, a2⟩ := rowLoop_row delim hd1 hd2 fuel r fuel _ [] rest hne hok hready (by omega)
     (by have := length_le_renderRow delim r; simp at hfu; omega)
-  have htrim : trimCR (r.map (·.2)) = r.map (·.2) := by
-    apply trimCR_id
-    intro f hfm
-    obtain ⟨p, hp, rfl⟩ := List.mem_map.mp hfm
-    exact (hok p hp).2
+  have htrim := trimCR_map hcr
   have hnemp : (r.map (·.2)).isEmpty = false := by
     cases r with
     | nil => exact absurd rfl hne
     | cons _ _ => rfl
   refine ⟨fs', ?_, a2.2⟩
+  have hsome : fs.err.isSome = false := by rw [he]; rfl
+  unfold readerNext
+  simp only [hsome, Bool.false_eq_true, ↓reduceIte]
+  simp only [List.nil_append] at a1
+  rw [a1]
+  simp only [htrim, hnemp, Bool.false_eq_true, ↓reduceIte]
+
+/-- Step 3d'. The last row, rendered without line break, through `readerNext`. -/
+theorem readerNext_fields (delim : Byte) (hd1 : delim ≠ 34) (hd2 : delim ≠ 10) (fuel : Nat)
+    (r : List (Bool × List Byte)) (fs : FS)
+    (hne : r ≠ []) (hok : ∀ p ∈ r, FieldOk' delim p) (hcr : LastNoCR r) (hl : r ≠ [(false, [])])
+    (he : fs.err = none) (hf : fs.st.future = []) (hdr : fs.st.data.drop fs.st.cursor = renderFields delim r)
+    (hfu : (renderFields delim r).length + 1 < fuel) :
+    ∃ fs', readerNext delim fuel fs = some (fs', r.map (·.2), true) ∧ fs'.err = some .eof := by
+  have hready : Ready { fs with st := fs.st.reset, field := [], fieldStart := 0, hitEOL := false }
+      (renderFields delim r) :=
+    ⟨hf, rfl, rfl, by simpa [St.reset] using hdr, Nat.zero_le _, he⟩
+  obtain ⟨fs', a1, a2, a3⟩ := rowLoop_fields delim hd1 hd2 fuel r fuel _ [] hne hok hready
+    (fun h => absurd h hl) (by omega)
+    (by have := length_le_renderFields delim r; omega)
+  have htrim := trimCR_map hcr
+  have hnemp : (r.map (·.2)).isEmpty = false := by
+    cases r with
+    | nil => exact absurd rfl hne
+    | cons _ _ => rfl
+  refine ⟨fs', ?_, a3⟩
   have hsome : fs.err.isSome = false := by rw [he]; rfl
   unfold readerNext
   simp only [hsome, Bool.false_eq_true, ↓reduceIte]
@@ -700,6 +1041,17 @@ theorem renderDoc_eq_nil (delim : Byte) (rows : List (List (Bool × List Byte)))
     simp at h
     exact absurd h.1 (renderRow_ne_nil _ _)
 
+/-- Admissible row for the repaired reader — what the proof needs of a row: it has a field, every
+field that must be quoted is quoted (a quoted field may contain anything, CR and CR LF included), and
+the last field does not end with CR (`Reader.Next` would trim it). -/
+structure RowOk' (delim : Byte) (r : List (Bool × List Byte)) : Prop where
+  /-- at least one field -/
+  nonempty : r ≠ []
+  /-- every field that `mustQuote` is quoted -/
+  quoted : ∀ p ∈ r, FieldOk' delim p
+  /-- the last field does not end with CR -/
+  lastNoCR : LastNoCR r
+
 /-- end of input: the reader reports `eof` and no further row -/
 theorem readAll_end (delim : Byte) (fuel n : Nat) (fs : FS) (acc : List (List (List Byte)))
     (h : AtRow fs []) (hfu : 0 < fuel) (hn : 0 < n) :
@@ -715,7 +1067,7 @@ theorem readAll_end (delim : Byte) (fuel n : Nat) (fs : FS) (acc : List (List (L
     have hfn : fnext delim (k + 1) { fs with st := fs.st.reset, field := [], fieldStart := 0, hitEOL := false }
         = some ({ fs with st := fs.st.reset, field := [], fieldStart := 0, hitEOL := false, err := some .eof }, false) := by
       unfold fnext
-      simp only [Bool.false_eq_true, ↓reduceIte, hens]
+      simp only [Bool.false_eq_true, ↓reduceIte, hens, Nat.lt_irrefl, gt_iff_lt]
     have hrd : readerNext delim (k + 1) fs
         = some ({ fs with st := fs.st.reset, field := [], fieldStart := 0, hitEOL := false, err := some .eof }, [], false) := by
       have hsome : fs.err.isSome = false := by rw [he]; rfl
@@ -727,119 +1079,276 @@ theorem readAll_end (delim : Byte) (fuel n : Nat) (fs : FS) (acc : List (List (L
       unfold readerNext; simp [he]
     simp [readAll, hrd, he]
 
-/-- Step 4 (loaded buffer). From a state between two rows whose unread bytes are a rendered table,
-`readAll` appends the table's rows and ends with `eof`. -/
-theorem readAll_rows (delim : Byte) (hd1 : delim ≠ 34) (hd2 : delim ≠ 10) (fuel : Nat) :
-    ∀ (rows : List (List (Bool × List Byte))) (n : Nat) (fs : FS) (acc : List (List (List Byte))),
-    (∀ r ∈ rows, r ≠ [] ∧ ∀ p ∈ r, FieldOk delim p) → AtRow fs (renderDoc delim rows) →
-    (renderDoc delim rows).length < fuel → rows.length < n →
-    readAll delim fuel n fs acc = some (acc ++ rows.map (·.map (·.2)), some .eof) := by
+theorem readAll_step (delim : Byte) (fuel n : Nat) (fs fs' : FS) (row : List (List Byte)) (acc : List (List (List Byte)))
+    (h : readerNext delim fuel fs = some (fs', row, true)) :
+    readAll delim fuel (n + 1) fs acc = readAll delim fuel n fs' (acc ++ [row]) := by
+  simp only [readAll, h]
+
+/-- Step 4 (loaded buffer), compositional form. From a state between two rows whose unread bytes are a
+rendered table followed by `tail`, `readAll` reads the table's rows and goes on from a state between
+two rows whose unread bytes are `tail`. -/
+theorem readAll_prefix (delim : Byte) (hd1 : delim ≠ 34) (hd2 : delim ≠ 10) (fuel : Nat) (tail : List Byte) :
+    ∀ (rows : List (List (Bool × List Byte))) (fs : FS) (acc : List (List (List Byte))),
+    (∀ r ∈ rows, RowOk' delim r) →
+    fs.err = none → fs.st.future = [] → fs.st.data.drop fs.st.cursor = renderDoc delim rows ++ tail →
+    fs.st.cursor ≤ fs.st.data.length →
+    (renderDoc delim rows ++ tail).length < fuel →
+    ∃ fs', AtRow fs' tail ∧ ∀ m, readAll delim fuel (rows.length + m) fs acc
+      = readAll delim fuel m fs' (acc ++ rows.map (·.map (·.2))) := by
   intro rows
   induction rows with
   | nil =>
-    intro n fs acc _ h hfu hn
-    simpa using readAll_end delim fuel n fs acc h (by omega) (by omega)
+    intro fs acc _ he hf hdr hin _
+    exact ⟨fs, Or.inl ⟨he, hf, by simpa [renderDoc] using hdr, hin⟩, fun m => by simp⟩
   | cons r rs ih =>
-    intro n fs acc hok h hfu hn
-    obtain ⟨m, rfl⟩ : ∃ m, n = m + 1 := ⟨n - 1, by simp at hn; omega⟩
-    rw [renderDoc_cons] at h hfu
-    rcases h with ⟨he, hf, hdr, hin⟩ | ⟨hnil, _⟩
-    · obtain ⟨hne, hfo⟩ := hok r (by simp)
-      obtain ⟨fs1, a1, a2⟩ := readerNext_row delim hd1 hd2 fuel r fs (renderDoc delim rs) hne hfo he hf hdr hfu
-      have := ih m fs1 (acc ++ [r.map (·.2)]) (fun r' hr' => hok r' (List.mem_cons_of_mem _ hr')) a2
-        (by simp at hfu ⊢; omega) (by simp at hn ⊢; omega)
-      simp only [readAll, a1, this]
+    intro fs acc hok he hf hdr hin hfu
+    rw [renderDoc_cons, List.append_assoc] at hdr hfu
+    obtain ⟨hne, hfo, hcr⟩ := hok r (by simp)
+    obtain ⟨fs1, a1, a2⟩ := readerNext_row delim hd1 hd2 fuel r fs (renderDoc delim rs ++ tail) hne hfo hcr he hf hdr hfu
+    have hok' : ∀ r' ∈ rs, RowOk' delim r' := fun r' hr' => hok r' (List.mem_cons_of_mem _ hr')
+    have hstep : ∀ m, readAll delim fuel ((r :: rs).length + m) fs acc
+        = readAll delim fuel (rs.length + m) fs1 (acc ++ [r.map (·.2)]) := by
+      intro m
+      have : (r :: rs).length + m = (rs.length + m) + 1 := by simp; omega
+      rw [this]
+      simp only [readAll, a1]
+    rcases a2 with ⟨he1, hf1, hdr1, hin1⟩ | ⟨hnil, he1⟩
+    · obtain ⟨fs', b1, b2⟩ := ih fs1 (acc ++ [r.map (·.2)]) hok' he1 hf1 hdr1 hin1 (by simp at hfu ⊢; omega)
+      refine ⟨fs', b1, fun m => ?_⟩
+      rw [hstep, b2]
       simp
-    · simp at hnil
-      exact absurd hnil.1 (renderRow_ne_nil _ _)
+    · -- the input is exhausted: no rows left, no tail
+      have hrs : rs = [] := by
+        apply renderDoc_eq_nil delim
+        cases hx : renderDoc delim rs with
+        | nil => rfl
+        | cons _ _ => rw [hx] at hnil; simp at hnil
+      have htl : tail = [] := by
+        cases tail with
+        | nil => rfl
+        | cons _ _ => simp at hnil
+      subst hrs; subst htl
+      refine ⟨fs1, Or.inr ⟨rfl, he1⟩, fun m => ?_⟩
+      rw [hstep]
+      simp
+
+/-- Step 4 (loaded buffer). From a state between two rows whose unread bytes are a rendered table,
+`readAll` appends the table's rows and ends with `eof`. -/
+theorem readAll_rows (delim : Byte) (hd1 : delim ≠ 34) (hd2 : delim ≠ 10) (fuel : Nat)
+    (rows : List (List (Bool × List Byte))) (n : Nat) (fs : FS) (acc : List (List (List Byte)))
+    (hok : ∀ r ∈ rows, RowOk' delim r) (h : AtRow fs (renderDoc delim rows))
+    (hfu : (renderDoc delim rows).length < fuel) (hn : rows.length < n) :
+    readAll delim fuel n fs acc = some (acc ++ rows.map (·.map (·.2)), some .eof) := by
+  rcases h with ⟨he, hf, hdr, hin⟩ | ⟨hnil, he⟩
+  · obtain ⟨fs', a1, a2⟩ := readAll_prefix delim hd1 hd2 fuel [] rows fs acc hok he hf (by simpa using hdr) hin
+      (by simpa using hfu)
+    have : n = rows.length + (n - rows.length) := by omega
+    rw [this, a2]
+    exact readAll_end delim fuel _ fs' _ a1 (by omega) (by omega)
+  · have : rows = [] := renderDoc_eq_nil delim rows hnil
+    subst this
+    simpa using readAll_end delim fuel n fs acc (Or.inr ⟨rfl, he⟩) (by omega) (by omega)
 
 theorem readAll_loaded (delim : Byte) (hd1 : delim ≠ 34) (hd2 : delim ≠ 10)
-    (rows : List (List (Bool × List Byte))) (hok : ∀ r ∈ rows, r ≠ [] ∧ ∀ p ∈ r, FieldOk delim p)
+    (rows : List (List (Bool × List Byte))) (hok : ∀ r ∈ rows, RowOk' delim r)
     (fuel n : Nat) (hfu : (renderDoc delim rows).length < fuel) (hn : rows.length < n) :
     readAll delim fuel n (loadedFS (renderDoc delim rows)) [] = some (rows.map (·.map (·.2)), some .eof) := by
   have := readAll_rows delim hd1 hd2 fuel rows n (loadedFS (renderDoc delim rows)) [] hok
     (Or.inl ⟨rfl, rfl, rfl, Nat.zero_le _⟩) hfu hn
   simpa using this
 
+/-- Step 4' (loaded buffer): a rendered table followed by a last row without line break. The last row
+must not be the single bare empty field (it renders to nothing). -/
+theorem readAll_loaded_nfn (delim : Byte) (hd1 : delim ≠ 34) (hd2 : delim ≠ 10)
+    (rows : List (List (Bool × List Byte))) (last : List (Bool × List Byte))
+    (hok : ∀ r ∈ rows ++ [last], RowOk' delim r) (hl : last ≠ [(false, [])])
+    (fuel n : Nat) (hfu : (renderDoc delim rows ++ renderFields delim last).length + 1 < fuel)
+    (hn : rows.length + 1 < n) :
+    readAll delim fuel n (loadedFS (renderDoc delim rows ++ renderFields delim last)) []
+      = some ((rows ++ [last]).map (·.map (·.2)), some .eof) := by
+  have hrows : ∀ r ∈ rows, RowOk' delim r := fun r hr => hok r (by simp [hr])
+  obtain ⟨hne, hfo, hcr⟩ := hok last (by simp)
+  obtain ⟨fs1, a1, a2⟩ := readAll_prefix delim hd1 hd2 fuel (renderFields delim last) rows
+    (loadedFS (renderDoc delim rows ++ renderFields delim last)) [] hrows rfl rfl rfl (Nat.zero_le _) (by omega)
+  obtain ⟨m, rfl⟩ : ∃ m, n = rows.length + (m + 2) := ⟨n - rows.length - 2, by omega⟩
+  rw [a2]
+  rcases a1 with ⟨he, hf, hdr, hin⟩ | ⟨hnil, he⟩
+  · obtain ⟨fs2, b1, b2⟩ := readerNext_fields delim hd1 hd2 fuel last fs1 hne hfo hcr hl he hf hdr
+      (by simp at hfu ⊢; omega)
+    rw [readAll_step delim fuel (m + 1) fs1 fs2 _ _ b1,
+      readAll_end delim fuel (m + 1) fs2 _ (Or.inr ⟨rfl, b2⟩) (by omega) (by omega)]
+    simp
+  · -- `renderFields last = []` only for the single bare empty field
+    exfalso
+    cases last with
+    | nil => exact hne rfl
+    | cons p xs =>
+      cases xs with
+      | nil =>
+        obtain ⟨q, f⟩ := p
+        cases q with
+        | true => simp [renderFields, renderField] at hnil
+        | false =>
+          simp only [renderFields, renderField, Bool.false_eq_true, ↓reduceIte] at hnil
+          subst hnil
+          exact hl rfl
+      | cons q ys => rw [renderFields_cons2] at hnil; simp at hnil
+
+
 /-! ## §5 totality under an arbitrary read schedule
 
 With enough fuel every loop of the reader mirror returns, whatever the schedule; the measure is the
-number of bytes not yet consumed, `data.length + future.length - cursor`. -/
+number of bytes not yet consumed, `data.length + future.length - cursor`.
 
-def TQ (x : Option (Full.Res × St)) (T c : Nat) : Prop :=
-  ∃ r s', x = some (r, s') ∧ s'.data.length + s'.future.length = T ∧ c ≤ s'.cursor ∧ s'.cursor ≤ s'.data.length
+Since the repair of `fields.next` one call of `next` may return a field without consuming a byte: the
+empty field at the end of the input after a delimiter. The row loop therefore needs one more turn than
+there are unread bytes (`k = 1` below) — unless the input does not end with the delimiter (`k = 0`),
+which is the case of every document rendered with its final line break. To know that, the chain below
+carries two facts along: the last byte of the input (`lastByte`, untouched by refills, `reset` and the
+in-place compaction) and "the byte before the cursor is the delimiter" after a field that did not end
+its row (`AfterDelim`). -/
+
+def total (s : St) : Nat := s.data.length + s.future.length
+
+/-- the last byte of the whole input, loaded or not yet delivered -/
+def lastByte (s : St) : Option Byte := (s.data ++ s.future).getLast?
+
+/-- the byte before the cursor is the delimiter -/
+def AfterDelim (delim : Byte) (s : St) : Prop := 0 < s.cursor ∧ s.data[s.cursor - 1]? = some delim
+
+/-- a delimiter has been consumed in this row (`fieldStart > 0`) and the row goes on: then the byte
+before the cursor is that delimiter -/
+def J2 (delim : Byte) (fs : FS) : Prop := fs.hitEOL = false → 0 < fs.fieldStart → AfterDelim delim fs.st
 
 theorem total_len {a b c d : List Byte} (h : a ++ b = c ++ d) : a.length + b.length = c.length + d.length := by
   have := congrArg List.length h; simpa using this
 
+theorem lastByte_congr {s t : St} (h : s.data ++ s.future = t.data ++ t.future) : lastByte s = lastByte t := by
+  unfold lastByte; rw [h]
+
+/-- overwriting a byte that is not the last one does not change the last byte -/
+theorem getLast?_set_append (l m : List Byte) (i : Nat) (x : Byte) (h : i + 1 < l.length) :
+    (l.set i x ++ m).getLast? = (l ++ m).getLast? := by
+  have : (l.set i x).getLast? = l.getLast? := by
+    rw [List.getLast?_eq_getElem?, List.getLast?_eq_getElem?, List.length_set,
+      List.getElem?_set_ne (by omega)]
+  rw [List.getLast?_append, List.getLast?_append, this]
+
+/-- `reset` keeps the last byte, or leaves nothing -/
+theorem lastByte_reset (s : St) (hcl : s.cursor ≤ s.data.length) :
+    lastByte s.reset = lastByte s ∨ lastByte s.reset = none := by
+  unfold lastByte St.reset
+  have : s.data.drop s.cursor ++ s.future = (s.data ++ s.future).drop s.cursor := by
+    rw [List.drop_append_of_le_length hcl]
+  simp only
+  rw [this, List.getLast?_drop]
+  split
+  · exact Or.inr rfl
+  · exact Or.inl rfl
+
+/-- at the end of the input, right after a delimiter: the input ends with the delimiter -/
+theorem lastByte_of_afterDelim {delim : Byte} {s : St} (h : AfterDelim delim s) (hcl : s.cursor ≤ s.data.length)
+    (hf : s.future = []) (he : s.data.length ≤ s.cursor) : lastByte s = some delim := by
+  obtain ⟨h0, hg⟩ := h
+  unfold lastByte
+  rw [hf, List.append_nil, List.getLast?_eq_getElem?]
+  have : s.data.length = s.cursor := by omega
+  rw [this]; exact hg
+
+def TQ (delim : Byte) (x : Option (Full.Res × St)) (T c : Nat) (L : Option Byte) : Prop :=
+  ∃ r s', x = some (r, s') ∧ s'.data.length + s'.future.length = T ∧ c ≤ s'.cursor ∧ s'.cursor ≤ s'.data.length ∧
+    lastByte s' = L ∧ (r.hitEOL = false → AfterDelim delim s')
+
 theorem quoted_total (delim : Byte) (fuel : Nat) : ∀ (s : St) (start w qc : Nat), s.cursor ≤ s.data.length →
-    s.data.length + s.future.length - s.cursor < fuel →
-    TQ (quoted delim fuel s start w qc) (s.data.length + s.future.length) s.cursor := by
+    w ≤ s.cursor → s.data.length + s.future.length - s.cursor < fuel →
+    TQ delim (quoted delim fuel s start w qc) (s.data.length + s.future.length) s.cursor (lastByte s) := by
   induction fuel with
-  | zero => intro s start w qc _ h; omega
+  | zero => intro s start w qc _ _ h; omega
   | succ n ih =>
-    intro s start w qc hcl hfu
+    intro s start w qc hcl hw hfu
     unfold quoted
     obtain ⟨a1, a2, a3, a4, a5⟩ := ensure2_spec (s.future.length + 1) s (by omega)
     generalize ensure2 (s.future.length + 1) s = rs at a1 a2 a3 a4 a5
     obtain ⟨s1, e1⟩ := rs
     simp only at a1 a2 a3 a4 a5
     have hT := total_len a1
+    have hL : lastByte s1 = lastByte s := lastByte_congr a1
     rcases a5 with he | he
     · subst he
       have f0 := (a3 rfl).1
-      refine ⟨_, s1, rfl, hT, by omega, ?_⟩
-      rw [f0] at hT; simp at hT; omega
+      have hl : s1.cursor ≤ s1.data.length := by rw [f0] at hT; simp at hT; omega
+      simp only
+      by_cases hcd : (qc % 2 != 0 && decide (s1.cursor < s1.data.length) && s1.data[s1.cursor]? == some delim) = true
+      · simp only [hcd, ↓reduceIte]
+        simp only [Bool.and_eq_true, decide_eq_true_eq, beq_iff_eq] at hcd
+        exact ⟨_, _, rfl, hT, by show s.cursor ≤ s1.cursor + 1; omega, by show s1.cursor + 1 ≤ s1.data.length; omega,
+          hL, fun _ => ⟨Nat.succ_pos _, hcd.2⟩⟩
+      · simp only [hcd, Bool.false_eq_true, ↓reduceIte]
+        exact ⟨_, s1, rfl, hT, by omega, hl, hL, fun h => by simp at h⟩
     · subst he
       have g1 := a4 rfl
+      have hc0 : s1.cursor < s1.data.length := by omega
       simp only
-      rw [List.getElem?_eq_getElem (by omega : s1.cursor < s1.data.length)]
+      rw [List.getElem?_eq_getElem hc0]
       simp only
-      generalize s1.data[s1.cursor] = ch
-      have hkeep : TQ
+      have hget : s1.data[s1.cursor]? = some s1.data[s1.cursor] := List.getElem?_eq_getElem hc0
+      generalize s1.data[s1.cursor] = ch at hget
+      have hkeep : TQ delim
           (if (w + 1 != s1.cursor + 1) = true then
             match s1.data[s1.cursor + 1]? with
             | none => none
             | some nb => quoted delim n { s1 with cursor := s1.cursor + 1, data := s1.data.set (w + 1) nb } start (w + 1) 0
           else quoted delim n { s1 with cursor := s1.cursor + 1 } start (w + 1) 0)
-          (s.data.length + s.future.length) s.cursor := by
+          (s.data.length + s.future.length) s.cursor (lastByte s) := by
         split
-        · rw [List.getElem?_eq_getElem g1]
+        · rename_i hne
+          have hne' : w + 1 ≠ s1.cursor + 1 := by simpa using hne
+          rw [List.getElem?_eq_getElem g1]
           simp only
-          obtain ⟨r, s', b1, b2, b3, b4⟩ := ih { s1 with cursor := s1.cursor + 1, data := s1.data.set (w + 1) s1.data[s1.cursor + 1] }
+          obtain ⟨r, s', b1, b2, b3, b4, b5, b6⟩ := ih { s1 with cursor := s1.cursor + 1, data := s1.data.set (w + 1) s1.data[s1.cursor + 1] }
             start (w + 1) 0 (by show s1.cursor + 1 ≤ (s1.data.set _ _).length; simp; omega)
+            (by show w + 1 ≤ s1.cursor + 1; omega)
             (by show (s1.data.set _ _).length + s1.future.length - (s1.cursor + 1) < n; simp; omega)
-          refine ⟨r, s', b1, ?_, ?_, b4⟩
+          refine ⟨r, s', b1, ?_, ?_, b4, ?_, b6⟩
           · rw [b2]; show (s1.data.set _ _).length + s1.future.length = _; simp; omega
           · simp only at b3; omega
-        · obtain ⟨r, s', b1, b2, b3, b4⟩ := ih { s1 with cursor := s1.cursor + 1 } start (w + 1) 0
+          · rw [b5, ← hL]
+            exact getLast?_set_append s1.data s1.future (w + 1) _ (by omega)
+        · obtain ⟨r, s', b1, b2, b3, b4, b5, b6⟩ := ih { s1 with cursor := s1.cursor + 1 } start (w + 1) 0
             (by show s1.cursor + 1 ≤ s1.data.length; omega)
+            (by show w + 1 ≤ s1.cursor + 1; omega)
             (by show s1.data.length + s1.future.length - (s1.cursor + 1) < n; omega)
-          exact ⟨r, s', b1, by rw [b2]; exact hT, by simp only at b3; omega, b4⟩
-      have hrec : ∀ qc', TQ (quoted delim n { s1 with cursor := s1.cursor + 1 } start w qc')
-          (s.data.length + s.future.length) s.cursor := by
+          exact ⟨r, s', b1, by rw [b2]; exact hT, by simp only at b3; omega, b4, by rw [b5]; exact hL, b6⟩
+      have hrec : ∀ qc', TQ delim (quoted delim n { s1 with cursor := s1.cursor + 1 } start w qc')
+          (s.data.length + s.future.length) s.cursor (lastByte s) := by
         intro qc'
-        obtain ⟨r, s', b1, b2, b3, b4⟩ := ih { s1 with cursor := s1.cursor + 1 } start w qc'
+        obtain ⟨r, s', b1, b2, b3, b4, b5, b6⟩ := ih { s1 with cursor := s1.cursor + 1 } start w qc'
           (by show s1.cursor + 1 ≤ s1.data.length; omega)
+          (by show w ≤ s1.cursor + 1; omega)
           (by show s1.data.length + s1.future.length - (s1.cursor + 1) < n; omega)
-        exact ⟨r, s', b1, by rw [b2]; exact hT, by simp only at b3; omega, b4⟩
-      have hret : ∀ eol : Bool, TQ (some (⟨({ s1 with cursor := s1.cursor + 1 } : St).slice start w, eol, none⟩,
-          ({ s1 with cursor := s1.cursor + 1 } : St))) (s.data.length + s.future.length) s.cursor :=
-        fun eol => ⟨_, _, rfl, hT, by show s.cursor ≤ s1.cursor + 1; omega, by show s1.cursor + 1 ≤ s1.data.length; omega⟩
+        exact ⟨r, s', b1, by rw [b2]; exact hT, by simp only at b3; omega, b4, by rw [b5]; exact hL, b6⟩
+      have hret : ∀ eol : Bool, (eol = false → ch = delim) →
+          TQ delim (some (⟨({ s1 with cursor := s1.cursor + 1 } : St).slice start w, eol, none⟩,
+          ({ s1 with cursor := s1.cursor + 1 } : St))) (s.data.length + s.future.length) s.cursor (lastByte s) :=
+        fun eol hd => ⟨_, _, rfl, hT, by show s.cursor ≤ s1.cursor + 1; omega, by show s1.cursor + 1 ≤ s1.data.length; omega,
+          hL, fun h => ⟨Nat.succ_pos _, by show s1.data[s1.cursor + 1 - 1]? = some delim; rw [← hd h]; exact hget⟩⟩
       by_cases c1 : (ch == delim) = true
       · simp only [c1, ↓reduceIte]
         by_cases c2 : (qc % 2 != 0) = true
-        · simp only [c2, ↓reduceIte]; exact hret _
+        · simp only [c2, ↓reduceIte]; exact hret _ (fun _ => by simpa using c1)
         · simp only [c2, Bool.false_eq_true, ↓reduceIte]; exact hkeep
       · simp only [c1, Bool.false_eq_true, ↓reduceIte]
         by_cases c3 : (ch == LF) = true
         · simp only [c3, ↓reduceIte]
           by_cases c2 : (qc % 2 != 0) = true
-          · simp only [c2, ↓reduceIte]; exact hret _
+          · simp only [c2, ↓reduceIte]; exact hret _ (fun h => by simp at h)
           · simp only [c2, Bool.false_eq_true, ↓reduceIte]; exact hkeep
         · simp only [c3, Bool.false_eq_true, ↓reduceIte]
           by_cases c4 : (ch == CR) = true
-          · simp only [c4, ↓reduceIte]; exact hrec qc
+          · simp only [c4, ↓reduceIte]
+            by_cases c2 : (qc % 2 != 0) = true
+            · simp only [c2, ↓reduceIte]; exact hrec qc
+            · simp only [c2, Bool.false_eq_true, ↓reduceIte]; exact hkeep
           · simp only [c4, Bool.false_eq_true, ↓reduceIte]
             by_cases c5 : (ch == QUOTE) = true
             · simp only [c5, ↓reduceIte]
@@ -848,12 +1357,11 @@ theorem quoted_total (delim : Byte) (fuel : Nat) : ∀ (s : St) (start w qc : Na
               · simp only [c6, Bool.false_eq_true, ↓reduceIte]; exact hkeep
             · simp only [c5, Bool.false_eq_true, ↓reduceIte]; exact hkeep
 
-def total (s : St) : Nat := s.data.length + s.future.length
-
 theorem unq_total (delim : Byte) (fuel : Nat) : ∀ (fs : FS), fs.st.cursor ≤ fs.st.data.length →
     total fs.st - fs.st.cursor < fuel →
     ∃ fs', unq delim fuel fs = some (fs', true) ∧ total fs'.st = total fs.st ∧ fs.st.cursor ≤ fs'.st.cursor ∧
-      fs'.st.cursor ≤ fs'.st.data.length ∧ (fs.st.cursor < fs.st.data.length → fs.st.cursor < fs'.st.cursor) := by
+      fs'.st.cursor ≤ fs'.st.data.length ∧ (fs.st.cursor < fs.st.data.length → fs.st.cursor < fs'.st.cursor) ∧
+      lastByte fs'.st = lastByte fs.st ∧ J2 delim fs' := by
   induction fuel with
   | zero => intro fs _ h; omega
   | succ n ih =>
@@ -865,56 +1373,76 @@ theorem unq_total (delim : Byte) (fuel : Nat) : ∀ (fs : FS), fs.st.cursor ≤ 
     obtain ⟨s1, e1⟩ := rs
     simp only at a1 a2 a3 a4 a5
     have hT := total_len a1
+    have hL : lastByte s1 = lastByte fs.st := lastByte_congr a1
     rcases a5 with he | he
     · subst he
       obtain ⟨f0, f1⟩ := a3 rfl
       have hl : s1.data.length = fs.st.data.length + fs.st.future.length := by rw [f0] at hT; simpa using hT
-      refine ⟨_, rfl, hT, by show fs.st.cursor ≤ s1.cursor; omega, by show s1.cursor ≤ s1.data.length; omega, ?_⟩
+      refine ⟨_, rfl, hT, by show fs.st.cursor ≤ s1.cursor; omega, by show s1.cursor ≤ s1.data.length; omega, ?_,
+        hL, fun h => by simp at h⟩
       intro h; omega
     · subst he
       have g1 := a4 rfl
       simp only
       rw [List.getElem?_eq_getElem g1]
       simp only
-      generalize s1.data[s1.cursor] = ch
+      have hget : s1.data[s1.cursor]? = some s1.data[s1.cursor] := List.getElem?_eq_getElem g1
+      generalize s1.data[s1.cursor] = ch at hget
       by_cases c1 : (ch == delim) = true
       · simp only [c1, ↓reduceIte]
+        have hcd : ch = delim := by simpa using c1
         exact ⟨_, rfl, hT, by show fs.st.cursor ≤ s1.cursor + 1; omega, by show s1.cursor + 1 ≤ s1.data.length; omega,
-          fun _ => by show fs.st.cursor < s1.cursor + 1; omega⟩
+          fun _ => by show fs.st.cursor < s1.cursor + 1; omega, hL,
+          fun _ _ => ⟨Nat.succ_pos _, by show s1.data[s1.cursor + 1 - 1]? = some delim; rw [← hcd]; exact hget⟩⟩
       · simp only [c1, Bool.false_eq_true, ↓reduceIte]
         by_cases c2 : (ch == LF) = true
         · simp only [c2, ↓reduceIte]
           exact ⟨_, rfl, hT, by show fs.st.cursor ≤ s1.cursor + 1; omega, by show s1.cursor + 1 ≤ s1.data.length; omega,
-            fun _ => by show fs.st.cursor < s1.cursor + 1; omega⟩
+            fun _ => by show fs.st.cursor < s1.cursor + 1; omega, hL, fun h => by simp at h⟩
         · simp only [c2, Bool.false_eq_true, ↓reduceIte]
-          obtain ⟨fs', b1, b2, b3, b4, b5⟩ := ih { fs with st := { s1 with cursor := s1.cursor + 1 } }
+          obtain ⟨fs', b1, b2, b3, b4, b5, b6, b7⟩ := ih { fs with st := { s1 with cursor := s1.cursor + 1 } }
             (by show s1.cursor + 1 ≤ s1.data.length; omega)
             (by show s1.data.length + s1.future.length - (s1.cursor + 1) < n; omega)
           unfold total at b2
           simp only at b2 b3
-          exact ⟨fs', b1, by rw [b2]; exact hT, by omega, b4, fun _ => by omega⟩
+          exact ⟨fs', b1, by rw [b2]; exact hT, by omega, b4, fun _ => by omega, by rw [b6]; exact hL, b7⟩
 
+/-- one call of `fields.next`: it returns; when it reports a field, it has consumed at least one byte —
+or it is the empty field at the end of the input after a delimiter (repaired code) -/
 theorem fnext_total (delim : Byte) (fuel : Nat) (fs : FS) (hcl : fs.st.cursor ≤ fs.st.data.length)
     (hfu : total fs.st - fs.st.cursor < fuel) :
     ∃ fs' ok, fnext delim fuel fs = some (fs', ok) ∧ total fs'.st = total fs.st ∧ fs.st.cursor ≤ fs'.st.cursor ∧
-      fs'.st.cursor ≤ fs'.st.data.length ∧ (ok = true → fs.st.cursor < fs'.st.cursor) := by
+      fs'.st.cursor ≤ fs'.st.data.length ∧ lastByte fs'.st = lastByte fs.st ∧ J2 delim fs' ∧
+      (ok = true → fs.st.cursor < fs'.st.cursor ∨
+        (0 < fs.fieldStart ∧ fs.hitEOL = false ∧ fs'.hitEOL = true ∧ fs'.st.future = [] ∧
+          fs'.st.data.length ≤ fs'.st.cursor ∧ fs'.st.data = fs.st.data ++ fs.st.future ∧ fs'.st.cursor = fs.st.cursor)) := by
   unfold fnext
   by_cases hE : fs.hitEOL = true
   · simp only [hE, ↓reduceIte]
-    exact ⟨fs, false, rfl, rfl, Nat.le_refl _, hcl, by simp⟩
-  · simp only [hE, Bool.false_eq_true, ↓reduceIte]
+    exact ⟨fs, false, rfl, rfl, Nat.le_refl _, hcl, rfl, fun h => by rw [hE] at h; simp at h, by simp⟩
+  · have hE' : fs.hitEOL = false := by simpa using hE
+    simp only [hE', Bool.false_eq_true, ↓reduceIte]
     obtain ⟨a1, a2, a3, a4, a5⟩ := ens1_spec fs.st hcl
     have hun := unq_total delim fuel
     generalize ens1 fs.st = rs at a1 a2 a3 a4 a5
     obtain ⟨s1, e1⟩ := rs
     simp only at a1 a2 a3 a4 a5
     have hT := total_len a1
+    have hL : lastByte s1 = lastByte fs.st := lastByte_congr a1
     unfold total at hfu ⊢
     rcases a5 with he | he
     · subst he
       obtain ⟨f0, f1⟩ := a3 rfl
       have hl : s1.data.length = fs.st.data.length + fs.st.future.length := by rw [f0] at hT; simpa using hT
-      exact ⟨_, false, rfl, hT, by show fs.st.cursor ≤ s1.cursor; omega, by show s1.cursor ≤ s1.data.length; omega, by simp⟩
+      simp only
+      by_cases hfs0 : fs.fieldStart > 0
+      · rw [if_pos hfs0]
+        exact ⟨_, true, rfl, hT, by show fs.st.cursor ≤ s1.cursor; omega, by show s1.cursor ≤ s1.data.length; omega,
+          hL, fun h => by simp at h,
+          fun _ => Or.inr ⟨hfs0, trivial, rfl, f0, f1, by rw [← a1, f0, List.append_nil], a2⟩⟩
+      · rw [if_neg hfs0]
+        exact ⟨_, false, rfl, hT, by show fs.st.cursor ≤ s1.cursor; omega, by show s1.cursor ≤ s1.data.length; omega,
+          hL, fun _ h => absurd h hfs0, by simp⟩
     · subst he
       have g1 := a4 rfl
       simp only
@@ -923,147 +1451,365 @@ theorem fnext_total (delim : Byte) (fuel : Nat) (fs : FS) (hcl : fs.st.cursor 
       generalize s1.data[s1.cursor] = first
       by_cases cq : (first == QUOTE) = true
       · simp only [cq, ↓reduceIte]
-        obtain ⟨r, s', b1, b2, b3, b4⟩ := quoted_total delim fuel { s1 with cursor := s1.cursor + 1 } (s1.cursor + 1) (s1.cursor + 1) 0
-          (by show s1.cursor + 1 ≤ s1.data.length; omega)
+        obtain ⟨r, s', b1, b2, b3, b4, b5, b6⟩ := quoted_total delim fuel { s1 with cursor := s1.cursor + 1 } (s1.cursor + 1) (s1.cursor + 1) 0
+          (by show s1.cursor + 1 ≤ s1.data.length; omega) (Nat.le_refl _)
           (by show s1.data.length + s1.future.length - (s1.cursor + 1) < fuel; omega)
         rw [b1]
         simp only at b2 b3
         exact ⟨_, true, rfl, by show s'.data.length + s'.future.length = _; rw [b2]; exact hT,
-          by show fs.st.cursor ≤ s'.cursor; omega, b4, fun _ => by show fs.st.cursor < s'.cursor; omega⟩
+          by show fs.st.cursor ≤ s'.cursor; omega, b4, by show lastByte s' = _; rw [b5]; exact hL,
+          fun h _ => b6 h, fun _ => Or.inl (by show fs.st.cursor < s'.cursor; omega)⟩
       · simp only [cq, Bool.false_eq_true, ↓reduceIte]
-        obtain ⟨fs', b1, b2, b3, b4, b5⟩ := hun { fs with st := s1, hitEOL := false } (by show s1.cursor ≤ s1.data.length; omega)
+        obtain ⟨fs', b1, b2, b3, b4, b5, b6, b7⟩ := hun { fs with st := s1, hitEOL := false } (by show s1.cursor ≤ s1.data.length; omega)
           (by show total s1 - s1.cursor < fuel; unfold total; omega)
         unfold total at b2
-        simp only at b2 b3 b5
-        exact ⟨fs', true, b1, by rw [b2]; exact hT, by omega, b4, fun _ => by have := b5 g1; omega⟩
+        simp only at b2 b3 b5 b6
+        exact ⟨fs', true, b1, by rw [b2]; exact hT, by omega, b4, by rw [b6]; exact hL, b7,
+          fun _ => Or.inl (by have := b5 g1; omega)⟩
 
-theorem rowLoop_total (delim : Byte) (fuel : Nat) : ∀ (n : Nat) (fs : FS) (acc : List (List Byte)),
-    fs.st.cursor ≤ fs.st.data.length → total fs.st - fs.st.cursor < fuel → total fs.st - fs.st.cursor < n →
+theorem rowLoop_eol (delim : Byte) (fuel n : Nat) (fs : FS) (acc : List (List Byte)) (h : fs.hitEOL = true) :
+    rowLoop delim fuel (n + 1) fs acc = some (fs, acc) := by
+  simp [rowLoop, fnext, h]
+
+/-- `k = 1`: any input; `k = 0`: the input does not end with the delimiter -/
+def Slack (delim : Byte) (s : St) (k : Nat) : Prop := k = 1 ∨ lastByte s ≠ some delim
+
+/-- the row loop returns when `n` exceeds the number of unread bytes by `k + 1`: every field consumes at
+least one byte, except (repaired code) the empty field at the end of the input after a delimiter. -/
+theorem rowLoop_total (delim : Byte) (fuel k : Nat) : ∀ (n : Nat) (fs : FS) (acc : List (List Byte)),
+    fs.st.cursor ≤ fs.st.data.length → Slack delim fs.st k → J2 delim fs →
+    total fs.st - fs.st.cursor < fuel → total fs.st - fs.st.cursor + k < n →
     ∃ fs' row, rowLoop delim fuel n fs acc = some (fs', row) ∧ total fs'.st = total fs.st ∧
-      fs.st.cursor ≤ fs'.st.cursor ∧ fs'.st.cursor ≤ fs'.st.data.length ∧ (row = acc ∨ fs.st.cursor < fs'.st.cursor) := by
+      fs.st.cursor ≤ fs'.st.cursor ∧ fs'.st.cursor ≤ fs'.st.data.length ∧ lastByte fs'.st = lastByte fs.st ∧
+      (fs.fieldStart = 0 → row = acc ∨ fs.st.cursor < fs'.st.cursor) := by
   intro n
   induction n with
-  | zero => intro fs acc _ _ h; omega
+  | zero => intro fs acc _ _ _ _ h; omega
   | succ n ih =>
-    intro fs acc hcl hfu hn
-    obtain ⟨fs1, ok, a1, a2, a3, a4, a5⟩ := fnext_total delim fuel fs hcl hfu
+    intro fs acc hcl hk hj hfu hn
+    obtain ⟨fs1, ok, a1, a2, a3, a4, aL, aJ, a5⟩ := fnext_total delim fuel fs hcl hfu
     unfold rowLoop
     rw [a1]
     cases ok with
-    | false => exact ⟨fs1, acc, rfl, a2, a3, a4, Or.inl rfl⟩
+    | false => exact ⟨fs1, acc, rfl, a2, a3, a4, aL, fun _ => Or.inl rfl⟩
     | true =>
-      have hlt := a5 rfl
       have hle : fs1.st.cursor ≤ total fs1.st := by unfold total; omega
-      obtain ⟨fs', row, b1, b2, b3, b4, b5⟩ := ih fs1 (acc ++ [fs1.field]) a4 (by omega) (by omega)
-      exact ⟨fs', row, b1, by rw [b2, a2], by omega, b4, Or.inr (by omega)⟩
+      have hk1 : Slack delim fs1.st k := by
+        rcases hk with h | h
+        · exact Or.inl h
+        · exact Or.inr (by rw [aL]; exact h)
+      rcases a5 rfl with hlt | ⟨hpos, heol0, heol, hfut, hend, hdat, hcur⟩
+      · obtain ⟨fs', row, b1, b2, b3, b4, b5, b6⟩ := ih fs1 (acc ++ [fs1.field]) a4 hk1 aJ (by omega) (by omega)
+        exact ⟨fs', row, b1, by rw [b2, a2], by omega, b4, by rw [b5, aL], fun _ => Or.inr (by omega)⟩
+      · rcases hk with h | h
+        · obtain ⟨m, rfl⟩ : ∃ m, n = m + 1 := ⟨n - 1, by omega⟩
+          exact ⟨fs1, acc ++ [fs1.field], rowLoop_eol delim fuel m fs1 _ heol, a2, a3, a4, aL, fun h0 => by omega⟩
+        · -- the input ends with the delimiter: excluded
+          exfalso
+          obtain ⟨h0, hg⟩ := hj heol0 hpos
+          have hlt : fs.st.cursor - 1 < fs.st.data.length := by omega
+          have hg1 : fs1.st.data[fs1.st.cursor - 1]? = some delim := by
+            rw [hdat, hcur, List.getElem?_append_left hlt]; exact hg
+          have := lastByte_of_afterDelim (delim := delim) (s := fs1.st) ⟨by omega, hg1⟩ a4 hfut hend
+          rw [aL] at this
+          exact h this
 
 theorem trimCR_nil : trimCR [] = [] := rfl
 
-theorem readerNext_total (delim : Byte) (fuel : Nat) (fs : FS) (hcl : fs.st.cursor ≤ fs.st.data.length)
-    (hfu : total fs.st - fs.st.cursor < fuel) :
+theorem readerNext_total (delim : Byte) (fuel k : Nat) (fs : FS) (hcl : fs.st.cursor ≤ fs.st.data.length)
+    (hk : Slack delim fs.st k) (hfu : total fs.st - fs.st.cursor + k < fuel) :
     ∃ fs' row ok, readerNext delim fuel fs = some (fs', row, ok) ∧ fs'.st.cursor ≤ fs'.st.data.length ∧
+      Slack delim fs'.st k ∧
       total fs'.st - fs'.st.cursor ≤ total fs.st - fs.st.cursor ∧
       (ok = true → total fs'.st - fs'.st.cursor < total fs.st - fs.st.cursor) := by
   unfold readerNext
   by_cases he : fs.err.isSome = true
   · simp only [he, ↓reduceIte]
-    exact ⟨fs, [], false, rfl, hcl, Nat.le_refl _, by simp⟩
+    exact ⟨fs, [], false, rfl, hcl, hk, Nat.le_refl _, by simp⟩
   · simp only [he, Bool.false_eq_true, ↓reduceIte]
     have hreset : total fs.st.reset - fs.st.reset.cursor = total fs.st - fs.st.cursor := by
       simp [total, St.reset]; omega
-    obtain ⟨fs1, row, a1, a2, a3, a4, a5⟩ := rowLoop_total delim fuel fuel
+    have hkr : Slack delim fs.st.reset k := by
+      rcases hk with h | h
+      · exact Or.inl h
+      · rcases lastByte_reset fs.st hcl with h' | h'
+        · exact Or.inr (by rw [h']; exact h)
+        · exact Or.inr (by rw [h']; simp)
+    obtain ⟨fs1, row, a1, a2, a3, a4, aL, a5⟩ := rowLoop_total delim fuel k fuel
       { fs with st := fs.st.reset, field := [], fieldStart := 0, hitEOL := false } []
-      (Nat.zero_le _) (by show total fs.st.reset - fs.st.reset.cursor < fuel; omega)
+      (Nat.zero_le _) hkr (fun _ h => absurd h (Nat.lt_irrefl 0))
       (by show total fs.st.reset - fs.st.reset.cursor < fuel; omega)
+      (by show total fs.st.reset - fs.st.reset.cursor + k < fuel; omega)
     rw [a1]
-    simp only at a2 a3 a5 hreset
+    simp only at a2 a3 a5 aL hreset
     have hc0 : fs.st.reset.cursor = 0 := rfl
+    have hk1 : Slack delim fs1.st k := by
+      rcases hkr with h | h
+      · exact Or.inl h
+      · exact Or.inr (by rw [aL]; exact h)
     by_cases hemp : (trimCR row).isEmpty = true
     · simp only [hemp, ↓reduceIte]
-      exact ⟨_, [], false, rfl, a4, by show total fs1.st - fs1.st.cursor ≤ _; omega, by simp⟩
+      exact ⟨_, [], false, rfl, a4, hk1, by show total fs1.st - fs1.st.cursor ≤ _; omega, by simp⟩
     · simp only [hemp, Bool.false_eq_true, ↓reduceIte]
-      refine ⟨fs1, trimCR row, true, rfl, a4, by omega, fun _ => ?_⟩
-      rcases a5 with h | h
+      refine ⟨fs1, trimCR row, true, rfl, a4, hk1, by omega, fun _ => ?_⟩
+      rcases a5 trivial with h | h
       · subst h; exact absurd rfl hemp
       · have : fs1.st.cursor ≤ total fs1.st := by unfold total; omega
         omega
 
-theorem readAll_total (delim : Byte) (fuel : Nat) : ∀ (n : Nat) (fs : FS) (acc : List (List (List Byte))),
-    fs.st.cursor ≤ fs.st.data.length → total fs.st - fs.st.cursor < fuel → total fs.st - fs.st.cursor < n →
+/-- the reader returns, whatever the schedule: with `fuel` above the number of unread bytes when the
+input does not end with the delimiter (`k = 0`), one more in general (`k = 1`) -/
+theorem readAll_total (delim : Byte) (fuel k : Nat) : ∀ (n : Nat) (fs : FS) (acc : List (List (List Byte))),
+    fs.st.cursor ≤ fs.st.data.length → Slack delim fs.st k →
+    total fs.st - fs.st.cursor + k < fuel → total fs.st - fs.st.cursor < n →
     ∃ res, readAll delim fuel n fs acc = some res := by
   intro n
   induction n with
-  | zero => intro fs acc _ _ h; omega
+  | zero => intro fs acc _ _ _ h; omega
   | succ n ih =>
-    intro fs acc hcl hfu hn
-    obtain ⟨fs1, row, ok, a1, a2, a3, a4⟩ := readerNext_total delim fuel fs hcl hfu
+    intro fs acc hcl hk hfu hn
+    obtain ⟨fs1, row, ok, a1, a2, ak, a3, a4⟩ := readerNext_total delim fuel k fs hcl hk hfu
     unfold readAll
     rw [a1]
     cases ok with
     | false => exact ⟨_, rfl⟩
     | true =>
       have := a4 rfl
-      exact ih fs1 _ a2 (by omega) (by omega)
+      exact ih fs1 _ a2 ak (by omega) (by omega)
+
+/-- a document rendered with its final line break ends with LF (or is empty) -/
+theorem renderDoc_last (delim : Byte) : ∀ rows : List (List (Bool × List Byte)),
+    renderDoc delim rows = [] ∨ ∃ pre, renderDoc delim rows = pre ++ [10]
+  | [] => Or.inl rfl
+  | r :: rs => by
+    rw [renderDoc_cons]
+    rcases renderDoc_last delim rs with h | ⟨pre, h⟩
+    · exact Or.inr ⟨renderFields delim r, by rw [h]; simp [renderRow]⟩
+    · exact Or.inr ⟨renderRow delim r ++ pre, by rw [h]; simp⟩
+
+theorem slack_renderDoc (delim : Byte) (hd2 : delim ≠ 10) (rows : List (List (Bool × List Byte))) (sched : List Nat) :
+    Slack delim (initFS (renderDoc delim rows) sched).st 0 := by
+  refine Or.inr ?_
+  show ([] ++ renderDoc delim rows).getLast? ≠ some delim
+  rcases renderDoc_last delim rows with h | ⟨pre, h⟩
+  · rw [h]; simp
+  · rw [h]; simp only [List.nil_append, List.getLast?_concat, ne_eq, Option.some.injEq]
+    exact fun h => hd2 h.symm
 
 /-! ## §6 main theorems -/
+
+theorem RowOk'.core {delim : Byte} {r : List (Bool × List Byte)} (h : RowOk' delim r) :
+    QF.Props.C13.RowOkCore delim r := ⟨h.nonempty, h.quoted⟩
+
+/-- `RowOk` of C13 (which forbids CR in every field) is a special case of `RowOk'` -/
+theorem _root_.QF.Props.C13.RowOk.toOk' {delim : Byte} {r : List (Bool × List Byte)} (h : RowOk delim r) : RowOk' delim r :=
+  ⟨h.nonempty, h.quoted, lastNoCR_of_noCR h.noCR⟩
 
 theorem rowOk_fields {delim : Byte} {r : List (Bool × List Byte)} (h : RowOk delim r) :
     r ≠ [] ∧ ∀ p ∈ r, FieldOk delim p :=
   ⟨h.nonempty, fun p hp => ⟨h.quoted p hp, h.noCR p hp⟩⟩
 
-/-- Step 4, any schedule, explicit fuel, minimal hypotheses (every row has a field, every field that
-must be quoted is quoted, no field contains CR): with `fuel` and `n` larger than the document, the reader
-mirror returns exactly the table and then `eof` — whatever the sizes of the reads. -/
-theorem read_render_core (delim : Byte) (hd : delim ≠ 34 ∧ delim ≠ 10 ∧ delim ≠ 13)
-    (rows : List (List (Bool × List Byte))) (h : ∀ r ∈ rows, r ≠ [] ∧ ∀ p ∈ r, FieldOk delim p)
+/-- the hypotheses of `read_render_core` as stated before the repair are a special case of `RowOk'` -/
+theorem rowOk'_of_fields {delim : Byte} {r : List (Bool × List Byte)} (h : r ≠ [] ∧ ∀ p ∈ r, FieldOk delim p) :
+    RowOk' delim r :=
+  ⟨h.1, fun p hp => (h.2 p hp).1, lastNoCR_of_noCR (fun p hp => (h.2 p hp).2)⟩
+
+/-- Step 4, any schedule, explicit fuel, minimal hypotheses (`RowOk'`: every row has a field, every field
+that must be quoted is quoted — quoted fields may contain CR —, the last field of a row does not end
+with CR): with `fuel` and `n` larger than the document, the reader mirror returns exactly the table and
+then `eof` — whatever the sizes of the reads. -/
+theorem read_render_core' (delim : Byte) (hd : delim ≠ 34 ∧ delim ≠ 10 ∧ delim ≠ 13)
+    (rows : List (List (Bool × List Byte))) (h : ∀ r ∈ rows, RowOk' delim r)
     (sched : List Nat) (fuel n : Nat)
     (hfu : (renderDoc delim rows).length < fuel) (hn : (renderDoc delim rows).length < n) (hn' : rows.length < n) :
     readAll delim fuel n (initFS (renderDoc delim rows) sched) [] = some (rows.map (·.map (·.2)), some .eof) := by
-  obtain ⟨res, hres⟩ := readAll_total delim fuel n (initFS (renderDoc delim rows) sched) []
-    (Nat.zero_le _) (by simpa [total, initFS] using hfu) (by simpa [total, initFS] using hn)
+  obtain ⟨res, hres⟩ := readAll_total delim fuel 0 n (initFS (renderDoc delim rows) sched) []
+    (Nat.zero_le _) (slack_renderDoc delim hd.2.1 rows sched)
+    (by simpa [total, initFS] using hfu) (by simpa [total, initFS] using hn)
   have h1 := read_schedule_independent delim fuel n _ sched res hres
   have h2 := readAll_loaded delim hd.1 hd.2.1 rows h fuel n hfu hn'
   rw [h1] at h2
   rw [hres, h2]
 
-/-- **C12 on rendered documents.** For every table rendered with an admissible quoting choice
-(`RowOk`, which includes "no field contains CR"), the reader mirror returns the table and then `eof`,
-for every read schedule. -/
+/-- `read_render_core'` under the hypotheses used before the repair (no field contains CR) -/
+theorem read_render_core (delim : Byte) (hd : delim ≠ 34 ∧ delim ≠ 10 ∧ delim ≠ 13)
+    (rows : List (List (Bool × List Byte))) (h : ∀ r ∈ rows, r ≠ [] ∧ ∀ p ∈ r, FieldOk delim p)
+    (sched : List Nat) (fuel n : Nat)
+    (hfu : (renderDoc delim rows).length < fuel) (hn : (renderDoc delim rows).length < n) (hn' : rows.length < n) :
+    readAll delim fuel n (initFS (renderDoc delim rows) sched) [] = some (rows.map (·.map (·.2)), some .eof) :=
+  read_render_core' delim hd rows (fun r hr => rowOk'_of_fields (h r hr)) sched fuel n hfu hn hn'
+
+/-- **C12 on rendered documents (repaired reader).** For every table rendered with an admissible quoting
+choice — quoted fields may contain line breaks, CR LF included; only the last field of a row must not
+END with CR, because `Reader.Next` trims it — the reader mirror returns the table and then `eof`, for
+every read schedule. -/
+theorem read_render' (delim : Byte) (hd : delim ≠ 34 ∧ delim ≠ 10 ∧ delim ≠ 13)
+    (rows : List (List (Bool × List Byte))) (h : ∀ r ∈ rows, RowOk' delim r) (sched : List Nat) :
+    ∃ fuel n, readAll delim fuel n (initFS (renderDoc delim rows) sched) []
+      = some (rows.map (·.map (·.2)), some .eof) :=
+  ⟨(renderDoc delim rows).length + 1, (renderDoc delim rows).length + rows.length + 1,
+    read_render_core' delim hd rows h sched _ _ (by omega) (by omega) (by omega)⟩
+
+/-- **C12 on rendered documents** as stated before the repair (`RowOk` includes "no field contains CR"). -/
 theorem read_render (delim : Byte) (hd : delim ≠ 34 ∧ delim ≠ 10 ∧ delim ≠ 13)
     (rows : List (List (Bool × List Byte))) (h : ∀ r ∈ rows, RowOk delim r) (sched : List Nat) :
     ∃ fuel n, readAll delim fuel n (initFS (renderDoc delim rows) sched) []
       = some (rows.map (·.map (·.2)), some .eof) :=
-  ⟨(renderDoc delim rows).length + 1, (renderDoc delim rows).length + rows.length + 1,
-    read_render_core delim hd rows (fun r hr => rowOk_fields (h r hr)) sched _ _ (by omega) (by omega) (by omega)⟩
+  read_render' delim hd rows (fun r hr => (h r hr).toOk') sched
 
 /-- the same with the bounds spelled out: any `fuel`, `n` above the document's size will do -/
+theorem read_render_fuel' (delim : Byte) (hd : delim ≠ 34 ∧ delim ≠ 10 ∧ delim ≠ 13)
+    (rows : List (List (Bool × List Byte))) (h : ∀ r ∈ rows, RowOk' delim r) (sched : List Nat) (fuel n : Nat)
+    (hfu : (renderDoc delim rows).length < fuel) (hn : (renderDoc delim rows).length + rows.length < n) :
+    readAll delim fuel n (initFS (renderDoc delim rows) sched) [] = some (rows.map (·.map (·.2)), some .eof) :=
+  read_render_core' delim hd rows h sched fuel n hfu (by omega) (by omega)
+
 theorem read_render_fuel (delim : Byte) (hd : delim ≠ 34 ∧ delim ≠ 10 ∧ delim ≠ 13)
     (rows : List (List (Bool × List Byte))) (h : ∀ r ∈ rows, RowOk delim r) (sched : List Nat) (fuel n : Nat)
     (hfu : (renderDoc delim rows).length < fuel) (hn : (renderDoc delim rows).length + rows.length < n) :
     readAll delim fuel n (initFS (renderDoc delim rows) sched) [] = some (rows.map (·.map (·.2)), some .eof) :=
-  read_render_core delim hd rows (fun r hr => rowOk_fields (h r hr)) sched fuel n hfu (by omega) (by omega)
+  read_render_fuel' delim hd rows (fun r hr => (h r hr).toOk') sched fuel n hfu hn
 
-/-- **Reader mirror = specification** on rendered documents: the rows the reader mirror returns are
-`rfcParse` of the document, for every read schedule. -/
+/-- **Reader mirror = specification** on rendered documents (repaired reader): the rows the reader mirror
+returns are `rfcParse` of the document, for every read schedule — line breaks inside quotes included. -/
+theorem read_eq_spec' (delim : Byte) (hd : delim ≠ 34 ∧ delim ≠ 10 ∧ delim ≠ 13)
+    (rows : List (List (Bool × List Byte))) (h : ∀ r ∈ rows, RowOk' delim r) (sched : List Nat) :
+    ∃ fuel n, readAll delim fuel n (initFS (renderDoc delim rows) sched) []
+      = some (rfcParse delim (renderDoc delim rows), some .eof) := by
+  rw [QF.Props.C13.parse_render_core delim hd rows (fun r hr => (h r hr).core)]
+  exact read_render' delim hd rows h sched
+
 theorem read_eq_spec (delim : Byte) (hd : delim ≠ 34 ∧ delim ≠ 10 ∧ delim ≠ 13)
     (rows : List (List (Bool × List Byte))) (h : ∀ r ∈ rows, RowOk delim r) (sched : List Nat) :
     ∃ fuel n, readAll delim fuel n (initFS (renderDoc delim rows) sched) []
-      = some (rfcParse delim (renderDoc delim rows), some .eof) := by
-  rw [QF.Props.C13.parse_render delim hd rows h]
-  exact read_render delim hd rows h sched
+      = some (rfcParse delim (renderDoc delim rows), some .eof) :=
+  read_eq_spec' delim hd rows (fun r hr => (h r hr).toOk') sched
 
 /-- and whenever the reader mirror returns at all (any fuel, any schedule), it returns the specification's rows -/
-theorem read_eq_spec_of_some (delim : Byte) (hd : delim ≠ 34 ∧ delim ≠ 10 ∧ delim ≠ 13)
-    (rows : List (List (Bool × List Byte))) (h : ∀ r ∈ rows, RowOk delim r) (sched : List Nat) (fuel n : Nat)
+theorem read_eq_spec_of_some' (delim : Byte) (hd : delim ≠ 34 ∧ delim ≠ 10 ∧ delim ≠ 13)
+    (rows : List (List (Bool × List Byte))) (h : ∀ r ∈ rows, RowOk' delim r) (sched : List Nat) (fuel n : Nat)
     (hfu : (renderDoc delim rows).length < fuel) (hn : rows.length < n)
     (res : List (List (List Byte)) × Option RErr)
     (hres : readAll delim fuel n (initFS (renderDoc delim rows) sched) [] = some res) :
     res = (rfcParse delim (renderDoc delim rows), some .eof) := by
   have h1 := read_schedule_independent delim fuel n _ sched res hres
-  have h2 := readAll_loaded delim hd.1 hd.2.1 rows (fun r hr => rowOk_fields (h r hr)) fuel n hfu hn
+  have h2 := readAll_loaded delim hd.1 hd.2.1 rows h fuel n hfu hn
   rw [h1] at h2
-  rw [QF.Props.C13.parse_render delim hd rows h]
+  rw [QF.Props.C13.parse_render_core delim hd rows (fun r hr => (h r hr).core)]
   exact Option.some.inj h2
+
+theorem read_eq_spec_of_some (delim : Byte) (hd : delim ≠ 34 ∧ delim ≠ 10 ∧ delim ≠ 13)
+    (rows : List (List (Bool × List Byte))) (h : ∀ r ∈ rows, RowOk delim r) (sched : List Nat) (fuel n : Nat)
+    (hfu : (renderDoc delim rows).length < fuel) (hn : rows.length < n)
+    (res : List (List (List Byte)) × Option RErr)
+    (hres : readAll delim fuel n (initFS (renderDoc delim rows) sched) [] = some res) :
+    res = (rfcParse delim (renderDoc delim rows), some .eof) :=
+  read_eq_spec_of_some' delim hd rows (fun r hr => (h r hr).toOk') sched fuel n hfu hn res hres
+
+/-! ### The last row without line break; the trailing delimiter (repaired `fields.next`) -/
+
+/-- Explicit fuel: a rendered table followed by a last row WITHOUT line break. The last row may end with
+a quoted field, a non-empty unquoted field, or (repaired code) an empty unquoted field after a delimiter;
+it must not be the single bare empty field, which renders to nothing. -/
+theorem read_render_nfn_core (delim : Byte) (hd : delim ≠ 34 ∧ delim ≠ 10 ∧ delim ≠ 13)
+    (rows : List (List (Bool × List Byte))) (last : List (Bool × List Byte))
+    (h : ∀ r ∈ rows ++ [last], RowOk' delim r) (hl : last ≠ [(false, [])])
+    (sched : List Nat) (fuel n : Nat)
+    (hfu : (renderDoc delim rows ++ renderFields delim last).length + 1 < fuel)
+    (hn : (renderDoc delim rows ++ renderFields delim last).length < n) (hn' : rows.length + 1 < n) :
+    readAll delim fuel n (initFS (renderDoc delim rows ++ renderFields delim last) sched) []
+      = some ((rows ++ [last]).map (·.map (·.2)), some .eof) := by
+  obtain ⟨res, hres⟩ := readAll_total delim fuel 1 n (initFS (renderDoc delim rows ++ renderFields delim last) sched) []
+    (Nat.zero_le _) (Or.inl rfl) (by simpa [total, initFS] using hfu) (by simpa [total, initFS] using hn)
+  have h1 := read_schedule_independent delim fuel n _ sched res hres
+  have h2 := readAll_loaded_nfn delim hd.1 hd.2.1 rows last h hl fuel n hfu hn'
+  rw [h1] at h2
+  rw [hres, h2]
+
+/-- **C12, last row without line break.** The reader mirror returns the table, last row included, for
+every read schedule. -/
+theorem read_render_no_final_newline (delim : Byte) (hd : delim ≠ 34 ∧ delim ≠ 10 ∧ delim ≠ 13)
+    (rows : List (List (Bool × List Byte))) (last : List (Bool × List Byte))
+    (h : ∀ r ∈ rows ++ [last], RowOk' delim r) (hl : last ≠ [(false, [])]) (sched : List Nat) :
+    ∃ fuel n, readAll delim fuel n (initFS (renderDoc delim rows ++ renderFields delim last) sched) []
+      = some ((rows ++ [last]).map (·.map (·.2)), some .eof) :=
+  ⟨(renderDoc delim rows ++ renderFields delim last).length + 2,
+    (renderDoc delim rows ++ renderFields delim last).length + rows.length + 2,
+    read_render_nfn_core delim hd rows last h hl sched _ _ (by omega) (by omega) (by omega)⟩
+
+/-- … and this is what the specification says. -/
+theorem read_eq_spec_no_final_newline (delim : Byte) (hd : delim ≠ 34 ∧ delim ≠ 10 ∧ delim ≠ 13)
+    (rows : List (List (Bool × List Byte))) (last : List (Bool × List Byte))
+    (h : ∀ r ∈ rows ++ [last], RowOk' delim r) (hl : last ≠ [(false, [])]) (sched : List Nat) :
+    ∃ fuel n, readAll delim fuel n (initFS (renderDoc delim rows ++ renderFields delim last) sched) []
+      = some (rfcParse delim (renderDoc delim rows ++ renderFields delim last), some .eof) := by
+  rw [QF.Props.C13.parse_render_no_final_newline_core delim hd rows last (fun r hr => (h r hr).core) hl]
+  exact read_render_no_final_newline delim hd rows last h hl sched
+
+/-- **C12, trailing delimiter (repaired `fields.next` / `nextQuotedField`).** A document whose last row
+has no line break and ends with a delimiter — after an unquoted or after a quoted field — is read back
+with the final empty field, for every read schedule. `init` are the fields before the final empty one. -/
+theorem read_render_trailing_delim (delim : Byte) (hd : delim ≠ 34 ∧ delim ≠ 10 ∧ delim ≠ 13)
+    (rows : List (List (Bool × List Byte))) (init : List (Bool × List Byte))
+    (h : ∀ r ∈ rows, RowOk' delim r) (hne : init ≠ []) (hq : ∀ p ∈ init, FieldOk' delim p) (sched : List Nat) :
+    ∃ fuel n, readAll delim fuel n (initFS (renderDoc delim rows ++ (renderFields delim init ++ [delim])) sched) []
+      = some (rows.map (·.map (·.2)) ++ [init.map (·.2) ++ [[]]], some .eof) := by
+  have hlast : RowOk' delim (init ++ [(false, [])]) := by
+    refine ⟨by simp, ?_, ?_⟩
+    · intro p hp
+      rcases List.mem_append.mp hp with hp | hp
+      · exact hq p hp
+      · simp only [List.mem_singleton] at hp
+        subst hp
+        intro hm
+        simp [mustQuote] at hm
+    · intro p hp
+      simp only [List.getLast?_append, List.getLast?_singleton, Option.some_or, Option.some.injEq] at hp
+      subst hp
+      simp
+  have hl : init ++ [(false, [])] ≠ [(false, [])] := by
+    cases init with
+    | nil => exact absurd rfl hne
+    | cons x xs => cases xs <;> simp
+  have := read_render_no_final_newline delim hd rows (init ++ [(false, [])])
+    (by
+      intro r hr
+      rcases List.mem_append.mp hr with hr | hr
+      · exact h r hr
+      · simp only [List.mem_singleton] at hr
+        subst hr
+        exact hlast) hl sched
+  rw [renderFields_trailing delim init hne] at this
+  simpa using this
+
+/-- … and this is what the specification says: the reader returns `rfcParse` of the document. -/
+theorem read_eq_spec_trailing_delim (delim : Byte) (hd : delim ≠ 34 ∧ delim ≠ 10 ∧ delim ≠ 13)
+    (rows : List (List (Bool × List Byte))) (init : List (Bool × List Byte))
+    (h : ∀ r ∈ rows, RowOk' delim r) (hne : init ≠ []) (hq : ∀ p ∈ init, FieldOk' delim p) (sched : List Nat) :
+    ∃ fuel n, readAll delim fuel n (initFS (renderDoc delim rows ++ (renderFields delim init ++ [delim])) sched) []
+      = some (rfcParse delim (renderDoc delim rows ++ (renderFields delim init ++ [delim])), some .eof) := by
+  have hl : init ++ [(false, [])] ≠ [(false, [])] := by
+    cases init with
+    | nil => exact absurd rfl hne
+    | cons x xs => cases xs <;> simp
+  have hp := QF.Props.C13.parse_render_no_final_newline_core delim hd rows (init ++ [(false, [])])
+    (by
+      intro r hr
+      rcases List.mem_append.mp hr with hr | hr
+      · exact (h r hr).core
+      · simp only [List.mem_singleton] at hr
+        subst hr
+        refine ⟨by simp, ?_⟩
+        intro p hp
+        rcases List.mem_append.mp hp with hp | hp
+        · exact hq p hp
+        · simp only [List.mem_singleton] at hp
+          subst hp
+          intro hm
+          simp [mustQuote] at hm) hl
+  rw [renderFields_trailing delim init hne] at hp
+  rw [hp]
+  simpa using read_render_trailing_delim delim hd rows init h hne hq sched
 
 /-! ## The hypotheses are satisfiable; the model agrees on the instance -/
 
@@ -1081,10 +1827,47 @@ example : ∃ fuel n, readAll 44 fuel n (initFS (renderDoc 44 demo) (List.replic
 #eval (readAll 44 30 30 (initFS (renderDoc 44 QF.Props.C13.demo) [1, 2, 3, 1, 1, 5]) []).map
   (fun r => (decide (r.1 = QF.Props.C13.demo.map (·.map (·.2))), r.2))
 
-/-- Needed: a CR inside a quoted field does not come back from the reader mirror (the loop skips CR
-without compacting; known finding of C12), while `rfcParse` keeps it. -/
-example : (readAll 44 20 5 (initFS (renderDoc 44 [[(true, [97, 13, 98]), (false, [99])]]) []) []).map (·.1)
-    ≠ some (rfcParse 44 (renderDoc 44 [[(true, [97, 13, 98]), (false, [99])]])) := by decide
+/-- a table with CR LF and a bare CR inside quoted fields -/
+def demoCR : List (List (Bool × List Byte)) :=
+  [ [(true, [97, 13, 10, 98]), (false, [99])],
+    [(true, [13, 120]), (true, [13, 10])] ]
+
+theorem demoCR_ok : ∀ r ∈ demoCR, RowOk' 44 r := by
+  intro r hr
+  simp only [demoCR, List.mem_cons, List.not_mem_nil, or_false] at hr
+  rcases hr with rfl | rfl
+  · exact ⟨by decide, by decide, by decide⟩
+  · exact ⟨by decide, by decide, by decide⟩
+
+/-- No longer needed (repaired `nextQuotedField`): CR inside a quoted field comes back from the reader
+mirror, as `rfcParse` says — `"a␍⏎b",c⏎"␍x","␍⏎"⏎` read in pieces. -/
+example : ∃ fuel n, readAll 44 fuel n (initFS (renderDoc 44 demoCR) [3, 1, 2, 1]) []
+    = some (rfcParse 44 (renderDoc 44 demoCR), some .eof) :=
+  read_eq_spec' 44 (by decide) demoCR demoCR_ok _
+
+#eval (readAll 44 30 30 (initFS (renderDoc 44 demoCR) [3, 1, 2, 1]) []).map
+  (fun r => (decide (r.1 = demoCR.map (·.map (·.2))), r.2))
+
+/-- Needed (`RowOk'.lastNoCR`): `Reader.Next` drops a CR at the end of the last field of a row even when
+the field was quoted, while `rfcParse` keeps it. -/
+example : (readAll 44 20 5 (initFS (renderDoc 44 [[(false, [99]), (true, [97, 13])]]) []) []).map (·.1)
+    ≠ some (rfcParse 44 (renderDoc 44 [[(false, [99]), (true, [97, 13])]])) := by decide
+
+/-- Repaired `fields.next` / `nextQuotedField`: `a,⏎"b",` — the last row has no line break and ends with
+a delimiter after a quoted field; it has two fields. -/
+example : ∃ fuel n, readAll 44 fuel n (initFS (renderDoc 44 [[(false, [97]), (false, [])]] ++
+      (renderFields 44 [(true, [98])] ++ [44])) [1, 1, 2]) []
+    = some ([[[97], []]] ++ [[[98]] ++ [[]]], some .eof) :=
+  read_render_trailing_delim 44 (by decide) [[(false, [97]), (false, [])]] [(true, [98])]
+    (by
+      intro r hr
+      simp only [List.mem_cons, List.not_mem_nil, or_false] at hr
+      subst hr
+      exact ⟨by decide, by decide, by decide⟩)
+    (by decide) (by decide) _
+
+#eval (readAll 44 30 30 (initFS (renderDoc 44 [[(false, [97]), (false, [])]] ++
+      (renderFields 44 [(true, [98])] ++ [44])) [1, 1, 2]) [])
 
 /-- Not needed (`read_render_core`): `RowOk.single` and `RowOk.noLeadQuote`. A bare empty line is read
 as the row of one empty field, by the reader as by the specification. -/
@@ -1096,15 +1879,31 @@ example : ∃ fuel n, readAll 44 fuel n (initFS (renderDoc 44 [[(false, [])], [(
     rcases hr with rfl | rfl <;> exact ⟨by decide, by decide⟩) [2, 1] 20 20 (by decide) (by decide) (by decide)⟩
 
 #print axioms unq_field
+#print axioms quoted_eq_qscan
+#print axioms qscan_content
 #print axioms quoted_field
+#print axioms quoted_field_delim_eof
 #print axioms rowLoop_row
+#print axioms rowLoop_fields
 #print axioms readerNext_row
+#print axioms readerNext_fields
 #print axioms readAll_loaded
+#print axioms readAll_loaded_nfn
 #print axioms readAll_total
+#print axioms read_render_core'
 #print axioms read_render_core
+#print axioms read_render'
 #print axioms read_render
+#print axioms read_render_fuel'
 #print axioms read_render_fuel
+#print axioms read_eq_spec'
 #print axioms read_eq_spec
+#print axioms read_eq_spec_of_some'
 #print axioms read_eq_spec_of_some
+#print axioms read_render_nfn_core
+#print axioms read_render_no_final_newline
+#print axioms read_eq_spec_no_final_newline
+#print axioms read_render_trailing_delim
+#print axioms read_eq_spec_trailing_delim
 
 end QF.Props.C12Read
